@@ -1,12 +1,2643 @@
-//! C16 — not built yet (stub).
+//! C16 — state segments are sound and state sync reproduces the validated state.
+//!
+//! Part "seg" (Domain A): `Segment::from_pmmr` over in-memory and store backends
+//! in prune/compaction states reached through the store's usage protocol (driver
+//! copied from C08). Every honest segment must validate against the root of an
+//! independent reference MMR (refmmr, own blake2b); every single-element
+//! corruption of something the reconstruction depends on must be refused.
+//! "Depends on" comes from an instrumented reference implementation of segment
+//! evaluation written from the definition over the explicit reference forest
+//! (`ref_eval`): it records which leaves, hashes and proof entries it reads.
+//!
+//! Part "sync" (Domain B): end-to-end state sync between real `Chain`s, driven in
+//! the call order of servers/src/grin/sync/state_sync.rs and
+//! servers/src/common/adapters.rs, with generated arrival orders, duplicates,
+//! unrequested segments and (adversarial variant) one corrupted segment; plus the
+//! state-archive path (`txhashset_read` → `txhashset_write`).
 
+use crate::elems::FixElem;
 use crate::engine::*;
-use serde_json::Value;
+use crate::props::c02;
+use crate::props::c08::{self, History, TElem, XBlock, XStep};
+use crate::refmmr::{self, RefMmr, H32};
+use crate::world::gen::{Neg, RawBlock, RawOut, RawTx, World};
+use crate::world::*;
+use crate::{ensure, fail};
+use croaring::Bitmap;
+use grin_chain::txhashset::BitmapChunk;
+use grin_chain::types::SyncState;
+use grin_core::core::hash::{Hash, Hashed};
+use grin_core::core::pmmr::segment::{Segment, SegmentIdentifier, SegmentType, SegmentTypeIdentifier};
+use grin_core::core::pmmr::{Backend, ReadablePMMR, ReadonlyPMMR, VecBackend, PMMR};
+use grin_core::core::{BlockHeader, OutputIdentifier, TxKernel};
+use grin_core::ser::{self, DeserializationMode, PMMRIndexHashable, ProtocolVersion, Readable, Writeable};
+use grin_store::pmmr::PMMRBackend;
+use grin_util::secp::pedersen::RangeProof;
+use grin_util::StopState;
+use proptest::prelude::*;
+use serde_derive::{Deserialize, Serialize};
+use serde_json::{json, Value};
+use std::collections::{BTreeMap, BTreeSet};
+use std::sync::Arc;
 
-pub fn run(_ctx: &Ctx) -> HResult<()> {
-	Err(HarnessError("C16 check not built yet".into()))
+fn h(x: &H32) -> Hash {
+	Hash::from_vec(&x[..])
 }
 
-pub fn replay(_ctx: &Ctx, _part: &str, _case: &Value) -> PResult {
+fn h32(x: &Hash) -> H32 {
+	let mut a = [0u8; 32];
+	a.copy_from_slice(x.as_bytes());
+	a
+}
+
+/// deterministic 64-bit mixer for in-case sampling (all of it derives from the case's seed)
+fn mix(a: u64, b: u64) -> u64 {
+	let x = refmmr::blake(&[b"c16-mix", &a.to_be_bytes(), &b.to_be_bytes()]);
+	u64::from_be_bytes([x[0], x[1], x[2], x[3], x[4], x[5], x[6], x[7]])
+}
+
+// ================================================================ the segment as it travels
+
+/// A segment in the harness's own representation: exactly the fields of the wire
+/// format (core/src/core/pmmr/segment.rs, `impl Writeable for Segment`), positions 0-based.
+#[derive(Clone, Debug, PartialEq)]
+pub struct SegView {
+	pub height: u8,
+	pub idx: u64,
+	pub hash_pos: Vec<u64>,
+	pub hashes: Vec<H32>,
+	pub leaf_pos: Vec<u64>,
+	pub leaves: Vec<Vec<u8>>,
+	pub proof: Vec<H32>,
+}
+
+impl SegView {
+	pub fn of<T: Writeable>(seg: &Segment<T>) -> Result<SegView, Fail> {
+		let e = |e: ser::Error| Fail::new("harness:ser", format!("{:?}", e));
+		let id = seg.identifier();
+		let pb = ser::ser_vec(seg.proof(), ProtocolVersion(1)).map_err(e)?;
+		ensure!(pb.len() >= 8 && (pb.len() - 8) % 32 == 0, "harness:proof-bytes", "unexpected proof encoding of {} bytes", pb.len());
+		let np = u64::from_be_bytes(pb[..8].try_into().unwrap()) as usize;
+		ensure!(pb.len() == 8 + 32 * np, "harness:proof-bytes", "proof announces {} hashes in {} bytes", np, pb.len());
+		let proof = (0..np)
+			.map(|k| {
+				let mut a = [0u8; 32];
+				a.copy_from_slice(&pb[8 + 32 * k..8 + 32 * (k + 1)]);
+				a
+			})
+			.collect();
+		let mut leaves = vec![];
+		let mut leaf_pos = vec![];
+		for (p, d) in seg.leaf_iter() {
+			leaf_pos.push(p);
+			leaves.push(ser::ser_vec(d, ProtocolVersion(1)).map_err(e)?);
+		}
+		Ok(SegView {
+			height: id.height,
+			idx: id.idx,
+			hash_pos: seg.hash_iter().map(|(p, _)| p).collect(),
+			hashes: seg.hash_iter().map(|(_, x)| h32(&x)).collect(),
+			leaf_pos,
+			leaves,
+			proof,
+		})
+	}
+
+	/// the bytes a peer would send
+	pub fn wire(&self) -> Vec<u8> {
+		let mut v = vec![self.height];
+		v.extend_from_slice(&self.idx.to_be_bytes());
+		v.extend_from_slice(&(self.hashes.len() as u64).to_be_bytes());
+		for p in &self.hash_pos {
+			v.extend_from_slice(&(p + 1).to_be_bytes());
+		}
+		for x in &self.hashes {
+			v.extend_from_slice(x);
+		}
+		v.extend_from_slice(&(self.leaves.len() as u64).to_be_bytes());
+		for p in &self.leaf_pos {
+			v.extend_from_slice(&(p + 1).to_be_bytes());
+		}
+		for d in &self.leaves {
+			v.extend_from_slice(d);
+		}
+		v.extend_from_slice(&(self.proof.len() as u64).to_be_bytes());
+		for x in &self.proof {
+			v.extend_from_slice(x);
+		}
+		v
+	}
+
+	pub fn read<T: Readable>(&self) -> Result<Segment<T>, ser::Error> {
+		let b = self.wire();
+		ser::deserialize::<Segment<T>, _>(&mut &b[..], ProtocolVersion(1), DeserializationMode::default())
+	}
+}
+
+// ================================================================ instrumented reference evaluation
+
+/// what the reconstruction read
+#[derive(Clone, Debug, Default)]
+pub struct Deps {
+	/// positions of leaves whose data was hashed
+	pub leaves: BTreeSet<u64>,
+	/// positions of segment hashes that were used
+	pub hashes: BTreeSet<u64>,
+	/// number of proof hashes consumed (always a prefix)
+	pub proof_used: usize,
+	/// the subtree root stood in for by a hash of an enclosing fully spent subtree
+	pub root_from_ancestor: bool,
+}
+
+pub struct RefTree<'a> {
+	pub m: &'a RefMmr,
+	/// position of leaf i
+	pub lp: Vec<u64>,
+	/// unspent leaf indices (None: not a prunable tree)
+	pub bm: Option<&'a BTreeSet<u64>>,
+}
+
+impl<'a> RefTree<'a> {
+	pub fn new(m: &'a RefMmr, bm: Option<&'a BTreeSet<u64>>) -> RefTree<'a> {
+		RefTree { m, lp: m.leaf_positions(), bm }
+	}
+
+	fn n(&self) -> u64 {
+		self.m.n_leaves
+	}
+
+	/// the leaf's data is needed: not a prunable tree, or the bitmap marks it or its
+	/// sibling unspent, or it is the very last position of the MMR (a lone final leaf)
+	fn required(&self, i: u64) -> bool {
+		match self.bm {
+			None => true,
+			Some(b) => b.contains(&i) || b.contains(&(i ^ 1)) || self.lp[i as usize] + 1 == self.m.size(),
+		}
+	}
+
+	fn leaf_range(&self, node: usize) -> (u64, u64) {
+		let nd = &self.m.nodes[node];
+		let a = self.m.nodes[nd.leftmost as usize].leaf_idx.unwrap();
+		let b = self.m.nodes[nd.rightmost as usize].leaf_idx.unwrap();
+		(a, b + 1)
+	}
+
+	fn eval_node(&self, node: usize, leaves: &BTreeMap<u64, &Vec<u8>>, hashes: &BTreeMap<u64, H32>, d: &mut Deps) -> Result<Option<H32>, String> {
+		let nd = &self.m.nodes[node];
+		if let Some(i) = nd.leaf_idx {
+			if !self.required(i) {
+				return Ok(None);
+			}
+			let data = leaves.get(&nd.pos).ok_or_else(|| format!("missing leaf {}", nd.pos))?;
+			d.leaves.insert(nd.pos);
+			return Ok(Some(refmmr::leaf_hash(nd.pos, data)));
+		}
+		let (l, r) = (nd.left.unwrap(), nd.right.unwrap());
+		let lh = self.eval_node(l, leaves, hashes, d)?;
+		let rh = self.eval_node(r, leaves, hashes, d)?;
+		let stand_in = |child: usize, d: &mut Deps| -> Result<H32, String> {
+			let p = self.m.nodes[child].pos;
+			let x = hashes.get(&p).ok_or_else(|| format!("missing hash {}", p))?;
+			d.hashes.insert(p);
+			Ok(*x)
+		};
+		Ok(match (lh, rh) {
+			(None, None) => None,
+			(Some(a), Some(b)) => Some(refmmr::node_hash(nd.pos, &a, &b)),
+			(None, Some(b)) => {
+				let a = stand_in(l, d)?;
+				Some(refmmr::node_hash(nd.pos, &a, &b))
+			}
+			(Some(a), None) => {
+				let b = stand_in(r, d)?;
+				Some(refmmr::node_hash(nd.pos, &a, &b))
+			}
+		})
+	}
+
+	/// Reconstruct the MMR root from a segment by the definition; Err = the segment
+	/// lacks something the definition needs.
+	pub fn eval(&self, v: &SegView) -> Result<(H32, Deps), String> {
+		let n = self.n();
+		let size = self.m.size();
+		if v.height >= 40 {
+			return Err("height".into());
+		}
+		let cap = 1u64 << v.height;
+		let lo = v.idx.checked_mul(cap).ok_or("idx")?;
+		if lo >= n {
+			return Err("segment does not exist".into());
+		}
+		let hi = (lo + cap).min(n);
+		let full = hi - lo == cap;
+		let mut leaves: BTreeMap<u64, &Vec<u8>> = BTreeMap::new();
+		for (p, x) in v.leaf_pos.iter().zip(&v.leaves) {
+			leaves.entry(*p).or_insert(x);
+		}
+		let mut hashes: BTreeMap<u64, H32> = BTreeMap::new();
+		for (p, x) in v.hash_pos.iter().zip(&v.hashes) {
+			hashes.entry(*p).or_insert(*x);
+		}
+		let mut d = Deps::default();
+		let mut proof = v.proof.iter();
+		let mut acc: H32;
+		// index (in peaks) of the leftmost peak the segment touches
+		let peak_k: usize;
+		if full {
+			// the subtree of height `height` over leaves lo..hi
+			let mut node = self.lp[lo as usize] as usize;
+			for _ in 0..v.height {
+				node = self.m.nodes[node].parent.ok_or("segment subtree is not inside the MMR")?;
+			}
+			let mut start = node;
+			acc = match self.eval_node(node, &leaves, &hashes, &mut d)? {
+				Some(x) => x,
+				None => {
+					// fully spent: a hash of this subtree, or of the smallest enclosing
+					// subtree that is fully spent as well
+					let mut cur = node;
+					loop {
+						let p = self.m.nodes[cur].pos;
+						if let Some(x) = hashes.get(&p) {
+							d.hashes.insert(p);
+							d.root_from_ancestor = cur != node;
+							start = cur;
+							break *x;
+						}
+						let Some(par) = self.m.nodes[cur].parent else {
+							return Err(format!("missing hash {} (no stand-in up to the peak)", p));
+						};
+						let (a, b) = self.leaf_range(par);
+						if self.bm.map(|bm| bm.range(a..b).next().is_some()).unwrap_or(true) {
+							return Err(format!("missing hash {} (enclosing subtree is not fully spent)", p));
+						}
+						cur = par;
+					}
+				}
+			};
+			// siblings up to the peak
+			let mut cur = start;
+			while let Some(par) = self.m.nodes[cur].parent {
+				let s = proof.next().ok_or("proof too short (path)")?;
+				d.proof_used += 1;
+				acc = if self.m.nodes[par].left == Some(cur) { refmmr::node_hash(par as u64, &acc, s) } else { refmmr::node_hash(par as u64, s, &acc) };
+				cur = par;
+			}
+			peak_k = self.m.peaks.iter().position(|&p| p == cur).ok_or("not a peak")?;
+			if peak_k + 1 < self.m.peaks.len() {
+				let s = proof.next().ok_or("proof too short (right-hand peaks)")?;
+				d.proof_used += 1;
+				acc = refmmr::node_hash(size, &acc, s);
+			}
+		} else {
+			// final partial segment: the peaks over its leaves, bagged right to left
+			let inside: Vec<usize> = self.m.peaks.iter().copied().filter(|&p| self.leaf_range(p).0 >= lo).collect();
+			if inside.is_empty() {
+				return Err("partial segment without a peak".into());
+			}
+			peak_k = self.m.peaks.len() - inside.len();
+			let mut bag: Option<H32> = None;
+			for &p in inside.iter().rev() {
+				let ph = match self.eval_node(p, &leaves, &hashes, &mut d)? {
+					Some(x) => x,
+					None => {
+						let pos = self.m.nodes[p].pos;
+						let x = hashes.get(&pos).ok_or_else(|| format!("missing hash {} (spent peak)", pos))?;
+						d.hashes.insert(pos);
+						*x
+					}
+				};
+				bag = Some(match bag {
+					None => ph,
+					Some(r) => refmmr::node_hash(size, &ph, &r),
+				});
+			}
+			acc = bag.unwrap();
+		}
+		// peaks to the left, nearest first
+		for _ in 0..peak_k {
+			let s = proof.next().ok_or("proof too short (left peaks)")?;
+			d.proof_used += 1;
+			acc = refmmr::node_hash(size, s, &acc);
+		}
+		Ok((acc, d))
+	}
+}
+
+// ================================================================ verdicts of the code under test
+
+#[derive(Clone, Debug, PartialEq)]
+pub enum Verdict {
+	/// refused when read from the wire
+	ReadErr(String),
+	Rejected(String),
+	Accepted,
+}
+
+impl Verdict {
+	fn accepted(&self) -> bool {
+		*self == Verdict::Accepted
+	}
+}
+
+/// how the root is checked: `validate` or `validate_with` (root merged with another root)
+#[derive(Clone, Copy, Debug)]
+pub struct With {
+	pub hash_last_pos: u64,
+	pub other: H32,
+	pub other_is_left: bool,
+}
+
+fn merged(root: &H32, w: &With) -> H32 {
+	if w.other_is_left {
+		refmmr::node_hash(w.hash_last_pos, &w.other, root)
+	} else {
+		refmmr::node_hash(w.hash_last_pos, root, &w.other)
+	}
+}
+
+/// receive path of the code under test: deserialise, then validate
+fn grin_verdict<T>(v: &SegView, mmr_size: u64, bm: Option<&Bitmap>, root: &H32, with: Option<&With>) -> Result<Verdict, Fail>
+where
+	T: Readable + Writeable + std::fmt::Debug + PMMRIndexHashable,
+{
+	let seg: Segment<T> = match catch(|| v.read::<T>())? {
+		Ok(s) => s,
+		Err(e) => return Ok(Verdict::ReadErr(format!("{:?}", e))),
+	};
+	let r = catch(|| match with {
+		None => seg.validate(mmr_size, bm, h(root)),
+		Some(w) => seg.validate_with(mmr_size, bm, h(&merged(root, w)), w.hash_last_pos, h(&w.other), w.other_is_left),
+	})?;
+	Ok(match r {
+		Ok(()) => Verdict::Accepted,
+		Err(e) => Verdict::Rejected(format!("{:?}", e)),
+	})
+}
+
+// ================================================================ corruptions
+
+#[derive(Clone, Debug, PartialEq, Eq, Hash, PartialOrd, Ord)]
+pub enum Mut {
+	LeafData(u64),
+	LeafPos(u64, u64),
+	LeafOmit(u64),
+	HashVal(u64),
+	HashPos(u64, u64),
+	HashOmit(u64),
+	ProofFlip(usize),
+	ProofDrop(usize),
+	ProofInsert(usize),
+	Id(u8, u64),
+	// --- things the reconstruction never reads: not asserted
+	ExtraLeafData(u64),
+	ExtraHashVal(u64),
+	ExtraHashAdded(u64),
+	ProofTrailing,
+}
+
+impl Mut {
+	fn kind(&self) -> &'static str {
+		match self {
+			Mut::LeafData(_) => "leaf-data",
+			Mut::LeafPos(..) => "leaf-pos",
+			Mut::LeafOmit(_) => "leaf-omitted",
+			Mut::HashVal(_) => "hash-value",
+			Mut::HashPos(..) => "hash-pos",
+			Mut::HashOmit(_) => "hash-omitted",
+			Mut::ProofFlip(_) => "proof-hash",
+			Mut::ProofDrop(_) => "proof-shortened",
+			Mut::ProofInsert(_) => "proof-lengthened",
+			Mut::Id(..) => "identifier",
+			Mut::ExtraLeafData(_) => "unread-leaf-data",
+			Mut::ExtraHashVal(_) => "unread-hash-value",
+			Mut::ExtraHashAdded(_) => "unread-hash-added",
+			Mut::ProofTrailing => "proof-trailing-extra",
+		}
+	}
+	fn asserted(&self) -> bool {
+		!matches!(self, Mut::ExtraLeafData(_) | Mut::ExtraHashVal(_) | Mut::ExtraHashAdded(_) | Mut::ProofTrailing)
+	}
+}
+
+fn flip(x: &mut H32, salt: u64) {
+	x[(salt % 32) as usize] ^= 1 << ((salt >> 8) % 8);
+}
+
+fn apply_mut(v: &SegView, m: &Mut, salt: u64) -> Option<SegView> {
+	let mut o = v.clone();
+	let li = |p: u64| v.leaf_pos.iter().position(|x| *x == p);
+	let hi = |p: u64| v.hash_pos.iter().position(|x| *x == p);
+	match m {
+		Mut::LeafData(p) | Mut::ExtraLeafData(p) => {
+			let i = li(*p)?;
+			let l = o.leaves[i].len();
+			if l == 0 {
+				return None;
+			}
+			o.leaves[i][(salt as usize) % l] ^= 1 << ((salt >> 8) % 8);
+		}
+		Mut::LeafPos(p, q) => {
+			let i = li(*p)?;
+			o.leaf_pos[i] = *q;
+		}
+		Mut::LeafOmit(p) => {
+			let i = li(*p)?;
+			o.leaf_pos.remove(i);
+			o.leaves.remove(i);
+		}
+		Mut::HashVal(p) | Mut::ExtraHashVal(p) => {
+			let i = hi(*p)?;
+			flip(&mut o.hashes[i], salt);
+		}
+		Mut::HashPos(p, q) => {
+			let i = hi(*p)?;
+			o.hash_pos[i] = *q;
+		}
+		Mut::HashOmit(p) => {
+			let i = hi(*p)?;
+			o.hash_pos.remove(i);
+			o.hashes.remove(i);
+		}
+		Mut::ExtraHashAdded(p) => {
+			if hi(*p).is_some() {
+				return None;
+			}
+			let at = v.hash_pos.iter().position(|x| *x > *p).unwrap_or(v.hash_pos.len());
+			o.hash_pos.insert(at, *p);
+			o.hashes.insert(at, refmmr::blake(&[b"extra", &salt.to_be_bytes()]));
+		}
+		Mut::ProofFlip(k) => flip(o.proof.get_mut(*k)?, salt),
+		Mut::ProofDrop(k) => {
+			if *k >= o.proof.len() {
+				return None;
+			}
+			o.proof.remove(*k);
+		}
+		Mut::ProofInsert(k) => {
+			if *k > o.proof.len() {
+				return None;
+			}
+			o.proof.insert(*k, refmmr::blake(&[b"ins", &salt.to_be_bytes()]));
+		}
+		Mut::ProofTrailing => o.proof.push(refmmr::blake(&[b"trail", &salt.to_be_bytes()])),
+		Mut::Id(hh, ix) => {
+			o.height = *hh;
+			o.idx = *ix;
+		}
+	}
+	if o == *v {
+		None
+	} else {
+		Some(o)
+	}
+}
+
+/// up to `k` elements of `all`, always the first and the last, the rest seeded
+fn sample<T: Clone>(all: &[T], k: usize, salt: u64) -> Vec<T> {
+	if all.len() <= k {
+		return all.to_vec();
+	}
+	let mut idx: BTreeSet<usize> = BTreeSet::new();
+	idx.insert(0);
+	idx.insert(all.len() - 1);
+	let mut c = 0u64;
+	while idx.len() < k {
+		idx.insert((mix(salt, c) % all.len() as u64) as usize);
+		c += 1;
+	}
+	idx.into_iter().map(|i| all[i].clone()).collect()
+}
+
+/// the corruptions tried on one honest segment
+fn mutations(v: &SegView, d: &Deps, t: &RefTree, salt: u64, per_kind: usize) -> Vec<Mut> {
+	let size = t.m.size();
+	let n = t.n();
+	let mut out = vec![];
+	let dl: Vec<u64> = d.leaves.iter().copied().collect();
+	let dh: Vec<u64> = d.hashes.iter().copied().collect();
+	for p in sample(&dl, per_kind, mix(salt, 1)) {
+		out.push(Mut::LeafData(p));
+	}
+	for p in sample(&dl, per_kind, mix(salt, 2)) {
+		out.push(Mut::LeafOmit(p));
+	}
+	for p in sample(&dl, per_kind, mix(salt, 3)) {
+		// another valid leaf position that the segment does not carry: the nearest one
+		// above or below (the wire format wants ascending positions: a position that
+		// breaks the order is refused when read, which counts as refused)
+		let i = t.m.nodes[p as usize].leaf_idx.unwrap();
+		let up = (i + 1..n).map(|j| t.lp[j as usize]).find(|q| !v.leaf_pos.contains(q));
+		let down = (0..i).rev().map(|j| t.lp[j as usize]).find(|q| !v.leaf_pos.contains(q));
+		let pick = if mix(salt, p) & 1 == 0 { up.or(down) } else { down.or(up) };
+		if let Some(q) = pick {
+			out.push(Mut::LeafPos(p, q));
+		}
+	}
+	for p in sample(&dh, per_kind, mix(salt, 4)) {
+		out.push(Mut::HashVal(p));
+		out.push(Mut::HashOmit(p));
+		let up = (p + 1..size).find(|q| !v.hash_pos.contains(q));
+		let down = (0..p).rev().find(|q| !v.hash_pos.contains(q));
+		let pick = if mix(salt, p ^ 0x55) & 1 == 0 { up.or(down) } else { down.or(up) };
+		if let Some(q) = pick {
+			out.push(Mut::HashPos(p, q));
+		}
+	}
+	for k in 0..d.proof_used {
+		out.push(Mut::ProofFlip(k));
+	}
+	let ks: Vec<usize> = (0..d.proof_used).collect();
+	for k in sample(&ks, 3, mix(salt, 5)) {
+		out.push(Mut::ProofDrop(k));
+		out.push(Mut::ProofInsert(k));
+	}
+	// another existing segment's identifier
+	let mut ids: BTreeSet<(u8, u64)> = BTreeSet::new();
+	let nseg = |hh: u8| (n + (1u64 << hh) - 1) >> hh;
+	if v.idx + 1 < nseg(v.height) {
+		ids.insert((v.height, v.idx + 1));
+	}
+	if v.idx > 0 {
+		ids.insert((v.height, v.idx - 1));
+	}
+	if v.height > 0 {
+		ids.insert((v.height - 1, (v.idx * 2).min(nseg(v.height - 1) - 1)));
+		ids.insert((v.height - 1, (v.idx * 2 + 1).min(nseg(v.height - 1) - 1)));
+	}
+	ids.insert((v.height + 1, v.idx / 2));
+	let rh = (mix(salt, 6) % 9) as u8;
+	ids.insert((rh, mix(salt, 7) % nseg(rh)));
+	ids.remove(&(v.height, v.idx));
+	for (hh, ix) in ids {
+		out.push(Mut::Id(hh, ix));
+	}
+	// not asserted: data that the reconstruction never reads
+	let el: Vec<u64> = v.leaf_pos.iter().copied().filter(|p| !d.leaves.contains(p)).collect();
+	for p in sample(&el, 2, mix(salt, 8)) {
+		out.push(Mut::ExtraLeafData(p));
+	}
+	let eh: Vec<u64> = v.hash_pos.iter().copied().filter(|p| !d.hashes.contains(p)).collect();
+	for p in sample(&eh, 2, mix(salt, 9)) {
+		out.push(Mut::ExtraHashVal(p));
+	}
+	out.push(Mut::ExtraHashAdded(mix(salt, 10) % size));
+	out.push(Mut::ProofTrailing);
+	out
+}
+
+// ================================================================ one tree, all its segments
+
+#[derive(Default)]
+struct TreeStats {
+	evals: u64,
+	segments: u64,
+	nontrivial: u64,
+}
+
+/// everything Domain A says about one MMR state
+#[allow(clippy::too_many_arguments)]
+fn check_tree<B: Backend<FixElem>>(
+	ctx: &Ctx,
+	kind: &str,
+	backend: &B,
+	size: u64,
+	leaves: &[Vec<u8>],
+	alive: Option<&[bool]>,
+	heights: &[u8],
+	only: Option<(u8, u64)>,
+	salt: u64,
+	per_kind: usize,
+	counting: bool,
+) -> PResult {
+	let ev = &ctx.ev;
+	let r = RefMmr::build(leaves);
+	let n = leaves.len() as u64;
+	ensure!(size == r.size(), "harness:size", "{}: backend size {} reference {}", kind, size, r.size());
+	let root = r.root();
+	let prunable = alive.is_some();
+	let unspent: Option<BTreeSet<u64>> = alive.map(|a| (0..n).filter(|i| a[*i as usize]).collect());
+	let bitmap: Option<Bitmap> = unspent.as_ref().map(|s| s.iter().map(|i| *i as u32).collect());
+	let t = RefTree::new(&r, unspent.as_ref());
+	let pmmr = ReadonlyPMMR::<FixElem, B>::at(backend, size);
+	let mut st = TreeStats::default();
+	if n == 0 {
+		let res = catch(|| Segment::from_pmmr(SegmentIdentifier { height: 0, idx: 0 }, &pmmr, prunable))?;
+		ensure!(res.is_err(), "segment-of-empty-mmr", "{}: a segment of the empty MMR was produced", kind);
+		return Ok(());
+	}
+	for &hh in heights {
+		let nseg = (n + (1u64 << hh) - 1) >> hh;
+		for idx in 0..nseg {
+			if let Some(o) = only {
+				if o != (hh, idx) {
+					continue;
+				}
+			}
+			let when = format!("{} n={} segment(h={},idx={})", kind, n, hh, idx);
+			let id = SegmentIdentifier { height: hh, idx };
+			let seg = match catch(|| Segment::from_pmmr(id, &pmmr, prunable))? {
+				Ok(s) => s,
+				Err(e) => {
+					// SegmentProof::generate reads the siblings on the path with get_hash, which answers
+					// None for a leaf that has been removed: a height-0 segment next to a spent leaf cannot be
+					// produced. The node only serves heights >= 7 (adapters.rs *_SEGMENT_HEIGHT_RANGE), where
+					// no sibling on the path is a leaf, so this is outside the served domain: counted only.
+					let sib = idx ^ 1;
+					let sib_spent = prunable && sib < n && !alive.unwrap()[sib as usize];
+					if hh == 0 && sib_spent {
+						if counting {
+							ev.class("seg:not_producible:height0_next_to_spent_leaf(not asserted)");
+						}
+						continue;
+					}
+					fail!("honest-segment-not-produced", "{}: from_pmmr: {:?}", when, e);
+				}
+			};
+			st.segments += 1;
+			let v = SegView::of(&seg)?;
+			// the harness's reading of the wire format is the code's
+			match v.read::<FixElem>() {
+				Ok(back) => ensure!(back == seg, "wire-roundtrip", "{}: segment differs after the harness's own encoding was read back", when),
+				Err(e) => fail!("wire-roundtrip", "{}: the harness's encoding of an honest segment is refused: {:?}", when, e),
+			}
+			// Second height-0 limitation of from_pmmr on a prunable tree: a spent leaf whose data is still
+			// on file (not compacted) is shipped as data WITHOUT its hash; if its sibling is spent too the
+			// bitmap makes the reconstruction ask for the hash of the leaf (or of an enclosing spent
+			// subtree), which a height-0 segment then does not carry. Heights below 7 are never served
+			// (adapters.rs), from height 1 on the subtree root is an inner node whose hash is shipped:
+			// counted, not asserted.
+			if hh == 0 && prunable {
+				let a = alive.unwrap();
+				let sib = idx ^ 1;
+				let needed = a[idx as usize] || (sib < n && a[sib as usize]) || t.lp[idx as usize] + 1 == size;
+				if !needed && v.hash_pos.is_empty() && v.leaf_pos == vec![t.lp[idx as usize]] {
+					if counting {
+						ev.class("seg:not_provable:height0_spent_leaf_shipped_as_data(not asserted)");
+					}
+					continue;
+				}
+			}
+			// honest: reference reconstruction gives the reference root, and the code accepts it
+			let (rr, deps) = match t.eval(&v) {
+				Ok(x) => x,
+				Err(e) => fail!("honest-segment-incomplete-by-reference", "{}: the reference reconstruction cannot use the produced segment: {} ; segment {:?}", when, e, brief(&v)),
+			};
+			ensure!(rr == root, "honest-segment-reference-root-differs", "{}: reference reconstruction of the produced segment does not give the MMR root; segment {:?}", when, brief(&v));
+			let w = With {
+				hash_last_pos: size,
+				other: refmmr::blake(&[b"other-root", &salt.to_be_bytes(), &idx.to_be_bytes()]),
+				other_is_left: (mix(salt, idx) >> 3) & 1 == 0,
+			};
+			let w2 = With { other_is_left: !w.other_is_left, ..w };
+			for (name, with) in [("validate", None), ("validate_with", Some(&w)), ("validate_with", Some(&w2))] {
+				let g = grin_verdict::<FixElem>(&v, size, bitmap.as_ref(), &root, with)?;
+				st.evals += 1;
+				ensure!(
+					g.accepted(),
+					"honest-segment-rejected",
+					"{}: {} of the produced segment against the reference root: {:?}; segment {:?}",
+					when,
+					name,
+					g,
+					brief(&v)
+				);
+			}
+			// the merged root commits to the other root, its side and the position it is hashed with
+			{
+				let mut bad = w;
+				flip(&mut bad.other, salt);
+				let seg2 = seg.clone();
+				let r1 = catch(|| seg2.validate_with(size, bitmap.as_ref(), h(&merged(&root, &w)), w.hash_last_pos, h(&bad.other), w.other_is_left))?;
+				let r2 = catch(|| seg2.validate_with(size, bitmap.as_ref(), h(&merged(&root, &w)), w.hash_last_pos, h(&w.other), !w.other_is_left))?;
+				let r3 = catch(|| seg2.validate_with(size, bitmap.as_ref(), h(&merged(&root, &w)), w.hash_last_pos + 1, h(&w.other), w.other_is_left))?;
+				st.evals += 3;
+				ensure!(r1.is_err() && r2.is_err() && r3.is_err(), "validate_with-ignores-argument", "{}: validate_with accepts a changed other root / side / position: {:?} {:?} {:?}", when, r1, r2, r3);
+			}
+			let n_pruned_hashes = deps.hashes.len();
+			let nontrivial = n_pruned_hashes >= 1 && !deps.leaves.is_empty();
+			if counting {
+				ev.class(&format!("seg:{}:height{}", kind, hh));
+				if deps.root_from_ancestor {
+					ev.class("seg:fully_spent_segment_proved_by_enclosing_subtree_hash");
+				} else if deps.leaves.is_empty() {
+					ev.class("seg:fully_spent_segment_proved_by_own_hash");
+				}
+				if v.leaf_pos.iter().any(|p| !deps.leaves.contains(p)) {
+					ev.class("seg:carries_unread_leaf_data(spent, not compacted)");
+				}
+				if nontrivial {
+					st.nontrivial += 1;
+					ev.nontrivial(&("seg", kind.to_string(), hh, 64 - n.leading_zeros(), n_pruned_hashes.min(6), deps.leaves.len().min(8), hi_full(n, hh, idx), deps.proof_used));
+				}
+			}
+			// corruptions
+			for (mi, m) in mutations(&v, &deps, &t, mix(salt, (hh as u64) << 32 | idx), per_kind).into_iter().enumerate() {
+				let Some(mv) = apply_mut(&v, &m, mix(salt, mi as u64 ^ idx << 8)) else { continue };
+				let with = if mi % 2 == 0 { None } else { Some(&w) };
+				let g = grin_verdict::<FixElem>(&mv, size, bitmap.as_ref(), &root, with)?;
+				st.evals += 1;
+				let reference_accepts = matches!(t.eval(&mv), Ok((x, _)) if x == root);
+				if !m.asserted() {
+					if counting {
+						ev.class(&format!("seg:not_asserted:{}:{}", m.kind(), if g.accepted() { "accepted" } else { "refused" }));
+					}
+					continue;
+				}
+				if reference_accepts {
+					// the change leaves a segment that still proves what it claims (e.g. the same
+					// leaves under another identifier): nothing to refuse
+					if counting {
+						ev.class(&format!("seg:change_keeps_segment_valid:{}(not asserted)", m.kind()));
+					}
+					continue;
+				}
+				if counting {
+					ev.class(&format!(
+						"seg:corruption_refused:{}{}",
+						m.kind(),
+						match &g {
+							Verdict::ReadErr(_) => ":at_read",
+							_ => "",
+						}
+					));
+					if let Mut::LeafOmit(p) = &m {
+						let i = r.nodes[*p as usize].leaf_idx.unwrap();
+						ev.class(if unspent.as_ref().map(|u| u.contains(&i)).unwrap_or(true) { "seg:omitted_leaf:marked_unspent" } else { "seg:omitted_leaf:needed_as_sibling_or_last" });
+					}
+				}
+				ensure!(
+					!g.accepted(),
+					format!("corruption-accepted:{}", m.kind()),
+					"{}: corruption {:?} of an element the root depends on is ACCEPTED by {} (reference reconstruction refuses it); honest segment {:?}",
+					when,
+					m,
+					if with.is_some() { "validate_with" } else { "validate" },
+					brief(&v)
+				);
+			}
+		}
+	}
+	if counting {
+		ev.evals(st.evals);
+		ev.class_n(&format!("seg:{}:segments", kind), st.segments);
+		ev.class_n("seg:nontrivial_segments", st.nontrivial);
+	}
 	Ok(())
+}
+
+fn hi_full(n: u64, hh: u8, idx: u64) -> bool {
+	(idx + 1) << hh <= n
+}
+
+fn brief(v: &SegView) -> Value {
+	json!({"id": [v.height, v.idx], "hash_pos": v.hash_pos, "leaf_pos": v.leaf_pos, "proof_len": v.proof.len()})
+}
+
+// ================================================================ trees (the replayable case)
+
+#[derive(Clone, Debug, Serialize, Deserialize, PartialEq)]
+pub enum Tree {
+	/// VecBackend, nothing removed. `spent`: None = not prunable (kernel-like, no bitmap);
+	/// Some = prunable with these leaf indices spent but all data still present
+	Vec { n: u32, spent: Option<Vec<u32>> },
+	/// store backend, not prunable (kernel-like), optional reopen before serving
+	StoreFlat { n: u32, reopen: bool },
+	/// store backend, prunable, state reached through a C08 history
+	Store(History),
+}
+
+#[derive(Clone, Debug, Serialize, Deserialize, PartialEq)]
+pub struct SegCase {
+	pub tree: Tree,
+	pub seed: u64,
+	pub heights: Vec<u8>,
+	/// restrict to one segment (replay convenience)
+	pub only: Option<(u8, u64)>,
+}
+
+fn elem(seed: u64, serial: u64) -> FixElem {
+	<FixElem as TElem>::make(seed, serial)
+}
+
+fn open_store(dir: &std::path::Path, prunable: bool) -> Result<PMMRBackend<FixElem>, Fail> {
+	PMMRBackend::<FixElem>::new(dir, prunable, ProtocolVersion(1), None).map_err(|e| Fail::new("open-err", format!("PMMRBackend::new: {}", e)))
+}
+
+fn pos_of(leaf_idx: u64) -> u64 {
+	refmmr::ref_leaf_pos(leaf_idx) as u64
+}
+
+fn bitmap_of(leaf_idxs: impl Iterator<Item = u64>) -> Bitmap {
+	leaf_idxs.map(|i| (pos_of(i) + 1) as u32).collect()
+}
+
+struct Driven {
+	backend: PMMRBackend<FixElem>,
+	size: u64,
+	leaves: Vec<Vec<u8>>,
+	alive: Vec<bool>,
+	eff_compactions: u32,
+	rewinds: u32,
+}
+
+/// C08's driver without the per-step comparison: the usage protocol of
+/// chain/src/txhashset/txhashset.rs (Extension::new / rewind / apply_block,
+/// extending's sync|discard, TxHashSet::compact).
+fn drive(dir: &std::path::Path, hist: &History) -> Result<Driven, Fail> {
+	#[derive(Clone)]
+	struct Blk {
+		n_after: u64,
+		removed: Vec<u64>,
+	}
+	ensure!(!hist.var, "harness:bad-history", "variable-size histories are not used here");
+	let mut backend = open_store(dir, true)?;
+	let mut size = backend.unpruned_size();
+	let mut leaves: Vec<Vec<u8>> = vec![];
+	let mut alive: Vec<bool> = vec![];
+	let mut blocks: Vec<Blk> = vec![];
+	let mut serial = 0u64;
+	let mut floor = 0usize;
+	let (mut eff, mut rewinds) = (0u32, 0u32);
+	let n_at = |blocks: &Vec<Blk>, k: usize| if k == 0 { 0 } else { blocks[k - 1].n_after };
+	let size_at = |blocks: &Vec<Blk>, k: usize| refmmr::ref_mmr_size(n_at(blocks, k)) as u64;
+	for (si, step) in hist.steps.iter().enumerate() {
+		match step {
+			XStep::Unit { rewind_to, blocks: xb, commit } => {
+				let snap = (leaves.clone(), alive.clone(), blocks.clone());
+				let ext_size;
+				{
+					let mut p = PMMR::<FixElem, _>::at(&mut backend, size);
+					if let Some(t) = *rewind_to {
+						let len = blocks.len();
+						ensure!(t >= floor && t <= len, "harness:bad-history", "step {}: rewind to boundary {} outside [{}, {}]", si, t, floor, len);
+						if t == len {
+							p.rewind(size_at(&blocks, len), &Bitmap::new()).map_err(|e| Fail::new("rewind-err", format!("step {}: {}", si, e)))?;
+						} else {
+							rewinds += 1;
+							for j in ((t + 1)..=len).rev() {
+								let blk = blocks.pop().unwrap();
+								let bm = bitmap_of(blk.removed.iter().copied());
+								p.rewind(size_at(&blocks, j - 1), &bm).map_err(|e| Fail::new("rewind-err", format!("step {}: rewind of block {}: {}", si, j, e)))?;
+								for r in &blk.removed {
+									alive[*r as usize] = true;
+								}
+								let n = n_at(&blocks, j - 1) as usize;
+								leaves.truncate(n);
+								alive.truncate(n);
+							}
+						}
+					}
+					for (bi, b) in xb.iter().enumerate() {
+						let n0 = leaves.len() as u64;
+						ensure!(n0 + b.appends as u64 <= 4096, "harness:bad-history", "step {}: too many leaves", si);
+						for _ in 0..b.appends {
+							let e = elem(hist.seed, serial);
+							serial += 1;
+							p.push(&e).map_err(|e| Fail::new("push-err", format!("step {} block {}: {}", si, bi, e)))?;
+							leaves.push(e.bytes());
+							alive.push(true);
+						}
+						for r in &b.removes {
+							ensure!(*r < n0 && alive[*r as usize], "harness:bad-history", "step {} block {}: removal of leaf {} which is not a live leaf older than the block", si, bi, r);
+							let ok = p.prune(pos_of(*r)).map_err(|e| Fail::new("prune-err", format!("step {} block {}: prune of leaf {}: {}", si, bi, r, e)))?;
+							ensure!(ok, "live-leaf-reported-spent", "step {} block {}: prune of live leaf {} returned false", si, bi, r);
+							alive[*r as usize] = false;
+						}
+						blocks.push(Blk {
+							n_after: leaves.len() as u64,
+							removed: b.removes.clone(),
+						});
+					}
+					ext_size = p.size;
+				}
+				if *commit {
+					backend.sync().map_err(|e| Fail::new("sync-err", format!("step {}: {}", si, e)))?;
+					size = ext_size;
+				} else {
+					backend.discard();
+					leaves = snap.0;
+					alive = snap.1;
+					blocks = snap.2;
+				}
+			}
+			XStep::Compact { cutoff } => {
+				let len = blocks.len();
+				ensure!(*cutoff >= floor && *cutoff <= len, "harness:bad-history", "step {}: compaction at boundary {} outside [{}, {}]", si, cutoff, floor, len);
+				let bm = bitmap_of(blocks[*cutoff..].iter().flat_map(|b| b.removed.iter().copied()));
+				let hs0 = backend.hash_size();
+				backend.check_compact(size_at(&blocks, *cutoff), &bm).map_err(|e| Fail::new("compact-err", format!("step {}: check_compact: {}", si, e)))?;
+				if backend.hash_size() < hs0 {
+					eff += 1;
+				}
+				floor = *cutoff;
+			}
+			XStep::Reopen | XStep::ReopenWithoutSizeFile => {
+				drop(backend);
+				backend = open_store(dir, true)?;
+				let sz = backend.unpruned_size();
+				let want = refmmr::ref_mmr_size(leaves.len() as u64) as u64;
+				ensure!(sz == want, "reopen-size", "step {}: unpruned_size() after reopen {} reference {}", si, sz, want);
+				size = sz;
+			}
+		}
+	}
+	Ok(Driven {
+		backend,
+		size,
+		leaves,
+		alive,
+		eff_compactions: eff,
+		rewinds,
+	})
+}
+
+pub fn check_seg(ctx: &Ctx, c: &SegCase, counting: bool) -> PResult {
+	let per_kind = if ctx.quick() { 4 } else { 8 };
+	let ev = &ctx.ev;
+	match &c.tree {
+		Tree::Vec { n, spent } => {
+			let mut b = VecBackend::<FixElem>::new();
+			let mut leaves = vec![];
+			{
+				let mut p = PMMR::new(&mut b);
+				for i in 0..*n as u64 {
+					let e = elem(c.seed, i);
+					p.push(&e).map_err(|e| Fail::new("push-err", e))?;
+					leaves.push(e.bytes());
+				}
+			}
+			let alive: Option<Vec<bool>> = spent.as_ref().map(|s| {
+				let s: BTreeSet<u32> = s.iter().copied().collect();
+				(0..*n).map(|i| !s.contains(&i)).collect()
+			});
+			let kind = if alive.is_some() { "vec_prunable" } else { "vec_flat" };
+			check_tree(ctx, kind, &b, b.size(), &leaves, alive.as_deref(), &c.heights, c.only, c.seed, per_kind, counting)?;
+			if counting {
+				ev.class(&format!("seg:trees:{}", kind));
+			}
+		}
+		Tree::StoreFlat { n, reopen } => {
+			let dir = ctx.scratch_dir("sf");
+			let r: PResult = (|| {
+				let mut b = open_store(&dir, false)?;
+				let mut leaves = vec![];
+				let size;
+				{
+					let mut p = PMMR::<FixElem, _>::at(&mut b, 0);
+					for i in 0..*n as u64 {
+						let e = elem(c.seed, i);
+						p.push(&e).map_err(|e| Fail::new("push-err", e))?;
+						leaves.push(e.bytes());
+					}
+					size = p.size;
+				}
+				b.sync().map_err(|e| Fail::new("sync-err", e.to_string()))?;
+				if *reopen {
+					drop(b);
+					b = open_store(&dir, false)?;
+				}
+				check_tree(ctx, "store_flat", &b, size, &leaves, None, &c.heights, c.only, c.seed, per_kind, counting)
+			})();
+			let _ = std::fs::remove_dir_all(&dir);
+			r?;
+			if counting {
+				ev.class("seg:trees:store_flat");
+			}
+		}
+		Tree::Store(hist) => {
+			let dir = ctx.scratch_dir("sp");
+			let r: PResult = (|| {
+				let d = drive(&dir, hist)?;
+				check_tree(ctx, "store_prunable", &d.backend, d.size, &d.leaves, Some(&d.alive), &c.heights, c.only, c.seed, per_kind, counting)?;
+				if counting {
+					ev.class("seg:trees:store_prunable");
+					if d.eff_compactions > 0 {
+						ev.class("seg:trees:store_prunable:with_effective_compaction");
+						if d.leaves.len() >= 24 && d.leaves.len() <= 64 {
+							ev.sample("seg-store", || serde_json::to_value(c).unwrap());
+						}
+					}
+					if d.rewinds > 0 {
+						ev.class("seg:trees:store_prunable:with_rewind");
+					}
+					let spent = d.alive.iter().filter(|a| !**a).count();
+					if spent > 0 {
+						ev.class("seg:trees:store_prunable:with_spent_leaves");
+					}
+				}
+				Ok(())
+			})();
+			let _ = std::fs::remove_dir_all(&dir);
+			match r {
+				Err(f) if f.sig == "harness:bad-history" => {
+					eprintln!("C16: history outside the usage protocol skipped: {}", f.msg);
+				}
+				r => r?,
+			}
+		}
+	}
+	if counting && matches!(&c.tree, Tree::Vec { n, spent: Some(_) } if *n >= 20 && *n <= 40) {
+		ev.sample("seg-vec", || serde_json::to_value(c).unwrap());
+	}
+	Ok(())
+}
+
+// ---------------------------------------------------------------- generated trees
+
+/// forward history up to 600 leaves: blocks append and spend in shaped patterns, compactions in between
+#[derive(Clone, Debug)]
+pub struct Fwd {
+	pub n_target: u16,
+	pub blocks: u8,
+	pub pat: Vec<(u8, u16, u8)>,
+	pub compact_every: u8,
+	pub lag: u8,
+	pub seed: u64,
+}
+
+fn fwd_history(f: &Fwd) -> History {
+	let mut alive: Vec<bool> = vec![];
+	let mut bounds: Vec<u64> = vec![];
+	let mut steps = vec![];
+	let nb = f.blocks.max(1) as u64;
+	let per = (f.n_target as u64 + nb - 1) / nb;
+	let mut floor = 0usize;
+	for k in 0..nb {
+		let n0 = alive.len() as u64;
+		let appends = per.min((f.n_target as u64).saturating_sub(n0)) as u32;
+		let (pk, pp, pl) = f.pat[(k as usize) % f.pat.len()];
+		let live: Vec<u64> = (0..n0).filter(|i| alive[*i as usize]).collect();
+		let in_range = |a: u64, e: u64| -> Vec<u64> { live.iter().copied().filter(|i| *i >= a && *i < e).collect() };
+		let pick = |len: u64| ((pp as u64) * len) >> 16;
+		let mut removes: Vec<u64> = if n0 == 0 {
+			vec![]
+		} else {
+			match pk % 7 {
+				0 => vec![],
+				1 => {
+					// an aligned subtree of height 1..=6
+					let w = 1u64 << (1 + pl % 6);
+					let cands = (n0 + w - 1) / w;
+					let s = pick(cands) * w;
+					in_range(s, s + w)
+				}
+				2 => {
+					// every other leaf of a window
+					let a = pick(n0);
+					in_range(a, a + 2 + 4 * pl as u64).into_iter().filter(|i| i % 2 == (pl as u64 & 1)).collect()
+				}
+				3 => in_range(0, pick(n0 + 1)),                                                     // everything before a point
+				4 => (0..1 + pl % 5).filter_map(|j| live.get((mix(f.seed, k << 8 | j as u64) % live.len().max(1) as u64) as usize).copied()).collect(), // a few
+				5 => {
+					// all but one leaf of an aligned subtree
+					let w = 1u64 << (1 + pl % 5);
+					let s = pick((n0 + w - 1) / w) * w;
+					let mut v = in_range(s, s + w);
+					if !v.is_empty() {
+						v.remove((pl as usize) % v.len());
+					}
+					v
+				}
+				_ => in_range(n0.saturating_sub(1 + pl as u64), n0), // the youngest leaves
+			}
+		};
+		removes.sort_unstable();
+		removes.dedup();
+		for _ in 0..appends {
+			alive.push(true);
+		}
+		for r in &removes {
+			alive[*r as usize] = false;
+		}
+		bounds.push(alive.len() as u64);
+		steps.push(XStep::Unit {
+			rewind_to: None,
+			blocks: vec![XBlock { appends, removes }],
+			commit: true,
+		});
+		if f.compact_every > 0 && (k + 1) % f.compact_every as u64 == 0 {
+			let cutoff = (bounds.len()).saturating_sub(f.lag as usize).max(floor);
+			floor = cutoff;
+			steps.push(XStep::Compact { cutoff });
+		}
+	}
+	History { var: false, seed: f.seed, steps }
+}
+
+#[derive(Clone, Debug)]
+pub enum RawTree {
+	Vec { n: u16, spend: Option<(u8, u16)> },
+	StoreFlat { n: u16, reopen: bool },
+	C08(c08::SCase),
+	Fwd(Fwd),
+}
+
+#[derive(Clone, Debug)]
+pub struct RawSeg {
+	pub tree: RawTree,
+	pub seed: u64,
+}
+
+fn size_strategy() -> impl Strategy<Value = u16> {
+	prop_oneof![3 => 1u16..=16, 3 => 17u16..=130, 2 => 131u16..=600, 1 => prop::sample::select(vec![1u16, 2, 3, 4, 7, 8, 15, 16, 31, 32, 33, 63, 64, 65, 127, 128, 129, 255, 256, 257, 511, 512, 513, 600])]
+}
+
+pub fn seg_strategy() -> impl Strategy<Value = RawSeg> {
+	let vecs = (size_strategy(), prop::option::weighted(0.7, (0u8..6, any::<u16>()))).prop_map(|(n, spend)| RawTree::Vec { n, spend });
+	let flat = (size_strategy(), any::<bool>()).prop_map(|(n, reopen)| RawTree::StoreFlat { n, reopen });
+	let c8 = c08::store_strategy().prop_map(|mut c| {
+		c.var = false;
+		RawTree::C08(c)
+	});
+	let fwd = (size_strategy(), 1u8..=24, prop::collection::vec((0u8..7, any::<u16>(), any::<u8>()), 1..=8), 0u8..=6, 0u8..=3, any::<u64>()).prop_map(|(n_target, blocks, pat, compact_every, lag, seed)| {
+		RawTree::Fwd(Fwd {
+			n_target,
+			blocks,
+			pat,
+			compact_every,
+			lag,
+			seed,
+		})
+	});
+	(prop_oneof![2 => vecs, 1 => flat, 4 => c8, 5 => fwd], any::<u64>()).prop_map(|(tree, seed)| RawSeg { tree, seed })
+}
+
+/// spent leaf indices of an unpruned prunable tree by pattern
+fn spend_set(n: u32, pat: u8, p: u16, seed: u64) -> Vec<u32> {
+	match pat {
+		0 => vec![],                                                    // everything unspent
+		1 => (0..n).collect(),                                         // everything spent
+		2 => (0..n).filter(|i| mix(seed, *i as u64) % 100 < 50).collect(), // half
+		3 => (0..n).filter(|i| mix(seed, *i as u64) % 100 < 90).collect(), // most
+		4 => {
+			// aligned subtrees fully spent
+			let w = 1u32 << (1 + p % 5);
+			(0..n).filter(|i| mix(seed, (*i / w) as u64) % 3 == 0).collect()
+		}
+		_ => (0..n).filter(|i| (*i as u64) < ((p as u64 * n as u64) >> 16)).collect(), // a prefix
+	}
+}
+
+pub fn resolve_seg(raw: &RawSeg) -> SegCase {
+	let tree = match &raw.tree {
+		RawTree::Vec { n, spend } => Tree::Vec {
+			n: *n as u32,
+			spent: spend.map(|(pat, p)| spend_set(*n as u32, pat, p, raw.seed)),
+		},
+		RawTree::StoreFlat { n, reopen } => Tree::StoreFlat { n: *n as u32, reopen: *reopen },
+		RawTree::C08(c) => Tree::Store(c08::resolve(c)),
+		RawTree::Fwd(f) => Tree::Store(fwd_history(f)),
+	};
+	SegCase {
+		tree,
+		seed: raw.seed,
+		heights: (0..=6).collect(),
+		only: None,
+	}
+}
+
+/// exhaustive small part: every leaf count up to `max_n` on the in-memory backend (flat, all
+/// unspent, all spent, alternating), and every spend subset of a store MMR of up to
+/// `max_sub` leaves with and without compaction
+fn exhaustive_cases(max_n: u32, max_sub: u32) -> Vec<SegCase> {
+	let mut v = vec![];
+	let heights: Vec<u8> = (0..=6).collect();
+	for n in 1..=max_n {
+		for spent in [None, Some(vec![]), Some((0..n).collect::<Vec<u32>>()), Some((0..n).filter(|i| i % 2 == 0).collect()), Some((0..n).filter(|i| i % 4 != 1).collect())] {
+			v.push(SegCase {
+				tree: Tree::Vec { n, spent },
+				seed: n as u64,
+				heights: heights.clone(),
+				only: None,
+			});
+		}
+	}
+	for n in 1..=max_sub {
+		for mask in 0u32..(1 << n) {
+			for compact in [false, true] {
+				let removes: Vec<u64> = (0..n as u64).filter(|i| mask >> i & 1 == 1).collect();
+				let mut steps = vec![
+					XStep::Unit {
+						rewind_to: None,
+						blocks: vec![XBlock { appends: n, removes: vec![] }],
+						commit: true,
+					},
+					XStep::Unit {
+						rewind_to: None,
+						blocks: vec![XBlock { appends: 0, removes }],
+						commit: true,
+					},
+				];
+				if compact {
+					steps.push(XStep::Compact { cutoff: 2 });
+				}
+				v.push(SegCase {
+					tree: Tree::Store(History { var: false, seed: 7, steps }),
+					seed: (n as u64) << 32 | mask as u64,
+					heights: (0..=4).collect(),
+					only: None,
+				});
+			}
+		}
+	}
+	v
+}
+
+// ================================================================ part "bitmapseg": synthetic multi-chunk bitmap trees
+
+#[derive(Clone, Debug, Serialize, Deserialize)]
+pub struct BmCase {
+	/// number of outputs ever (bits)
+	pub n_bits: u32,
+	pub density: u8,
+	pub seed: u64,
+	pub height: u8,
+}
+
+pub fn bm_strategy() -> impl Strategy<Value = BmCase> {
+	(prop_oneof![2 => 1u32..3000, 2 => 3000u32..40_000, 1 => prop::sample::select(vec![1u32, 1023, 1024, 1025, 2048, 2049, 4096, 8191, 8192])], 0u8..5, any::<u64>(), 0u8..=3).prop_map(|(n_bits, density, seed, height)| BmCase { n_bits, density, seed, height })
+}
+
+/// bitmap accumulator segments (Segment<BitmapChunk>, served by Segmenter::bitmap_segment and
+/// checked by Desegmenter::add_bitmap_segment with validate_with(.., output_root, other_is_left = true))
+pub fn check_bm(ctx: &Ctx, c: &BmCase, counting: bool) -> PResult {
+	use grin_chain::txhashset::{BitmapAccumulator, BitmapSegment};
+	let unspent: Vec<u64> = (0..c.n_bits as u64)
+		.filter(|i| match c.density {
+			0 => *i + 1 == c.n_bits as u64,
+			1 => mix(c.seed, *i) % 100 < 5,
+			2 => mix(c.seed, *i) % 100 < 50,
+			3 => mix(c.seed, *i) % 100 < 97,
+			_ => mix(c.seed, *i / 1024) % 2 == 0 || *i + 1 == c.n_bits as u64,
+		})
+		.collect();
+	if unspent.is_empty() {
+		return Ok(());
+	}
+	let mut acc = BitmapAccumulator::new();
+	acc.init(unspent.iter().copied(), c.n_bits as u64).map_err(|e| Fail::new("harness:acc", format!("{:?}", e)))?;
+	// reference chunks and root
+	let n_chunks = (unspent.iter().max().unwrap() / 1024 + 1) as usize;
+	let mut chunks = vec![vec![0u8; 128]; n_chunks];
+	for i in &unspent {
+		chunks[(*i / 1024) as usize][(*i % 1024) as usize / 8] |= 0x80 >> (*i % 8);
+	}
+	let r = RefMmr::build(&chunks);
+	let root = r.root();
+	let t = RefTree::new(&r, None);
+	let pm = acc.readonly_pmmr();
+	let size = pm.unpruned_size();
+	ensure!(size == r.size(), "bitmap-accumulator-size", "accumulator has {} nodes, reference {} ({} chunks)", size, r.size(), n_chunks);
+	let out_mmr_size = refmmr::ref_mmr_size(c.n_bits as u64) as u64;
+	let w = With {
+		hash_last_pos: out_mmr_size,
+		other: refmmr::blake(&[b"output-root", &c.seed.to_be_bytes()]),
+		other_is_left: true,
+	};
+	let nseg = (n_chunks as u64 + (1 << c.height) - 1) >> c.height;
+	let mut evals = 0u64;
+	for idx in 0..nseg {
+		let when = format!("bitmap tree of {} chunks, segment(h={},idx={})", n_chunks, c.height, idx);
+		let id = SegmentIdentifier { height: c.height, idx };
+		let seg = match catch(|| Segment::from_pmmr(id, &pm, false))? {
+			Ok(s) => s,
+			Err(e) => fail!("honest-segment-not-produced", "{}: {:?}", when, e),
+		};
+		// the wire form of a bitmap segment is BitmapSegment: there and back
+		let bs = BitmapSegment::from(seg.clone());
+		let bytes = ser::ser_vec(&bs, ProtocolVersion(1)).map_err(|e| Fail::new("bitmap-segment-ser", format!("{}: {:?}", when, e)))?;
+		let back: BitmapSegment = match ser::deserialize(&mut &bytes[..], ProtocolVersion(1), DeserializationMode::default()) {
+			Ok(b) => b,
+			Err(e) => fail!("bitmap-segment-roundtrip", "{}: own encoding refused: {:?}", when, e),
+		};
+		let seg2: Segment<BitmapChunk> = match catch(|| back.into_segment())? {
+			Ok(s) => s,
+			Err(e) => fail!("bitmap-segment-roundtrip", "{}: into_segment: {:?}", when, e),
+		};
+		ensure!(seg2 == seg, "bitmap-segment-roundtrip", "{}: segment differs after BitmapSegment round trip", when);
+		let v = SegView::of(&seg2)?;
+		let (rr, deps) = t.eval(&v).map_err(|e| Fail::new("honest-segment-incomplete-by-reference", format!("{}: {}", when, e)))?;
+		ensure!(rr == root, "honest-segment-reference-root-differs", "{}: reference reconstruction differs from the reference bitmap root", when);
+		let ok = catch(|| seg2.validate_with(size, None, h(&merged(&root, &w)), w.hash_last_pos, h(&w.other), true))?;
+		evals += 1;
+		ensure!(ok.is_ok(), "honest-segment-rejected", "{}: validate_with against H(size|output root|reference bitmap root): {:?}", when, ok);
+		// corruptions: one bit of one chunk, a chunk dropped, a proof hash, the identifier
+		let (sid, hp, hs, lp, ld, _pf) = seg2.clone().parts();
+		let rebuild = |lp: Vec<u64>, ld: Vec<BitmapChunk>, view: &SegView, id: SegmentIdentifier| -> Result<Segment<BitmapChunk>, Fail> {
+			// proof through its wire form
+			let mut pb = (view.proof.len() as u64).to_be_bytes().to_vec();
+			for x in &view.proof {
+				pb.extend_from_slice(x);
+			}
+			let proof = ser::deserialize(&mut &pb[..], ProtocolVersion(1), DeserializationMode::default()).map_err(|e| Fail::new("harness:proof", format!("{:?}", e)))?;
+			Ok(Segment::from_parts(id, hp.clone(), hs.clone(), lp, ld, proof))
+		};
+		let check_bad = |s: Segment<BitmapChunk>, what: &str| -> PResult {
+			let g = catch(|| s.validate_with(size, None, h(&merged(&root, &w)), w.hash_last_pos, h(&w.other), true))?;
+			ensure!(g.is_err(), format!("corruption-accepted:bitmap:{}", what), "{}: {} accepted", when, what);
+			Ok(())
+		};
+		for (k, p) in sample(&lp, 3, mix(c.seed, idx)).into_iter().enumerate() {
+			let i = lp.iter().position(|x| *x == p).unwrap();
+			let mut ld2 = ld.clone();
+			let bit = mix(c.seed, idx << 8 | k as u64) % 1024;
+			let cur = ld2[i].set_iter(0).any(|b| b as u64 == bit);
+			ld2[i].set(bit, !cur);
+			check_bad(rebuild(lp.clone(), ld2, &v, sid)?, "chunk-bit")?;
+			evals += 1;
+			if lp.len() > 1 {
+				let (mut lp3, mut ld3) = (lp.clone(), ld.clone());
+				lp3.remove(i);
+				ld3.remove(i);
+				check_bad(rebuild(lp3, ld3, &v, sid)?, "chunk-omitted")?;
+				evals += 1;
+			}
+		}
+		for k in 0..deps.proof_used {
+			let mut v2 = v.clone();
+			flip(&mut v2.proof[k], mix(c.seed, k as u64));
+			check_bad(rebuild(lp.clone(), ld.clone(), &v2, sid)?, "proof-hash")?;
+			evals += 1;
+		}
+		if idx + 1 < nseg && hi_full(n_chunks as u64, c.height, idx + 1) {
+			check_bad(rebuild(lp.clone(), ld.clone(), &v, SegmentIdentifier { height: c.height, idx: idx + 1 })?, "identifier")?;
+			evals += 1;
+		}
+	}
+	if counting {
+		ctx.ev.evals(evals);
+		ctx.ev.class(&format!("bitmapseg:chunks_{}", match n_chunks { 1 => "1", 2..=3 => "2_3", 4..=8 => "4_8", _ => "9_40" }));
+		ctx.ev.class_n("bitmapseg:segments", nseg);
+		if n_chunks >= 3 && nseg >= 2 {
+			ctx.ev.nontrivial(&("bm", n_chunks.min(12), c.height, c.density));
+		}
+	}
+	Ok(())
+}
+
+// ================================================================ part "sync" (Domain B)
+
+/// Genesis as on the real networks: one reward output and one kernel, with the header committing to
+/// them (sizes 1, roots of the one-leaf MMRs). The desegmenter's handling of position 0 ("don't re-push
+/// the genesis output") is written for exactly this shape; the harness's usual plain dev genesis has
+/// an empty body, which state sync from segments does not support.
+fn genesis_rewarded() -> &'static (grin_core::core::Block, OutRef) {
+	static G: std::sync::OnceLock<(grin_core::core::Block, OutRef)> = std::sync::OnceLock::new();
+	G.get_or_init(|| {
+		init_thread();
+		let (r, out, kern) = LIB.coinbase(0, 3);
+		let mut g = grin_core::genesis::genesis_dev().with_reward(out.clone(), kern.clone());
+		g.header.output_mmr_size = 1;
+		g.header.kernel_mmr_size = 1;
+		g.header.output_root = out.identifier().hash_with_index(0);
+		g.header.range_proof_root = out.proof().hash_with_index(0);
+		g.header.kernel_root = kern.hash_with_index(0);
+		(g, r)
+	})
+}
+
+fn open_box(dir: &std::path::Path) -> Result<ChainBox, String> {
+	let adapter = Arc::new(RecAdapter::default());
+	let genesis = genesis_rewarded().0.clone();
+	let chain = grin_chain::Chain::init(dir.to_string_lossy().to_string(), adapter.clone(), genesis.clone(), grin_core::pow::verify_size, false, None).map_err(|e| format!("Chain::init: {:?}", e))?;
+	Ok(ChainBox {
+		dir: dir.to_path_buf(),
+		chain: Some(Arc::new(chain)),
+		adapter,
+		genesis,
+	})
+}
+
+fn new_world(cb: &ChainBox) -> World {
+	let mut w = World::new(&cb.genesis, true);
+	w.note(&genesis_rewarded().1);
+	w
+}
+
+type RootsT = (Hash, Hash, Hash, Hash);
+
+fn roots_of(cb: &ChainBox) -> Result<RootsT, Fail> {
+	let ts = cb.c().txhashset();
+	let ts = ts.read();
+	let r = ts.roots().map_err(|e| Fail::new("roots-err", format!("{:?}", e)))?;
+	Ok((r.output_roots.pmmr_root, r.output_roots.bitmap_root, r.rproof_root, r.kernel_root))
+}
+
+#[derive(Clone, Debug, Serialize, Deserialize)]
+pub enum Src {
+	/// a 130-block real-PoW chain built from `base_seed` whose blocks carry ~10 outputs each, so
+	/// that the archive state has more than 1024 outputs (two bitmap chunks), + `pre` blocks;
+	/// optionally fillers up to a height divisible by 10 and Chain::compact() there; then `post` blocks
+	Big { base_seed: u64, pre: Vec<RawBlock>, compact: bool, post: Vec<RawBlock> },
+	/// a fresh chain of these blocks (padded with empty blocks to at least 30)
+	Short { blocks: Vec<RawBlock> },
+}
+
+#[derive(Clone, Debug, Serialize, Deserialize)]
+pub struct Corrupt {
+	/// 0 bitmap, 1 output, 2 rangeproof, 3 kernel
+	pub tree: u8,
+	/// which delivered segment of that tree (modulo what is delivered)
+	pub nth: u8,
+	/// 0 needed leaf datum, 1 needed hash, 2 proof hash, 3 needed leaf omitted, 4 unread leaf datum
+	/// (spent, not compacted), 5 unread hash, 6 a valid segment of another height with the same idx
+	pub kind: u8,
+	pub pick: u16,
+	/// after a failed sync: reset as state_sync.rs does and sync honestly
+	pub retry_after_reset: bool,
+}
+
+#[derive(Clone, Debug, Serialize, Deserialize)]
+pub struct SyncCase {
+	pub src: Src,
+	/// segment heights (bitmap 0..=1, output / rangeproof / kernel 2..=4)
+	pub heights: (u8, u8, u8, u8),
+	/// argument of next_desired_segments (3..=15)
+	pub max_req: u8,
+	/// 0: process_block_header one by one; k: sync_block_headers in chunks of 8k
+	pub header_chunks: u8,
+	/// seeds of the delivery schedule (order keys, duplicates, extras, drops)
+	pub order: Vec<u16>,
+	pub dup_pct: u8,
+	pub extra_pct: u8,
+	pub drop_pct: u8,
+	pub corrupt: Option<Corrupt>,
+	/// 0 none, 1 also sync a second receiver from the state archive, 2 from a well-formed archive with one
+	/// MMR data / hash file changed (byte flipped, tail cut, junk appended; chosen by `archive_byte`)
+	pub archive: u8,
+	pub archive_byte: u32,
+	/// after the sync feed the receiver the source's blocks above the archive header
+	pub continue_blocks: bool,
+}
+
+fn sync_tx() -> impl Strategy<Value = RawTx> {
+	(
+		prop::collection::vec(prop_oneof![3 => 0u16..6000, 3 => 40000u16..=65535, 2 => any::<u16>()], 1..=3),
+		prop::collection::vec((0u8..6, 0u8..5).prop_map(|(amt, key)| RawOut { kind: 0, amt, key }), 1..=3),
+		0u8..3,
+		prop_oneof![8 => Just(0u8), 1 => Just(1u8), 1 => Just(2u8), 1 => Just(3u8), 1 => 5u8..=10],
+		any::<bool>(),
+		prop::bool::weighted(0.15),
+	)
+		.prop_map(|(ins, outs, fee, kern, zero_offset, chain_prev)| RawTx {
+			ins,
+			outs,
+			fee,
+			kern,
+			zero_offset,
+			chain_prev,
+		})
+}
+
+fn sync_block() -> impl Strategy<Value = RawBlock> {
+	(0u8..2, prop_oneof![2 => Just(0usize), 5 => Just(1usize), 3 => Just(2usize)].prop_flat_map(|n| prop::collection::vec(sync_tx(), n))).prop_map(|(cb_key, txs)| RawBlock {
+		parent: 0,
+		cb_key,
+		txs,
+		dt: 60,
+		diff: 1,
+		neg: Neg::None,
+		neg_pick: 0,
+	})
+}
+
+pub fn sync_strategy(base_seed: u64, small_weight: u32, adversarial_weight: f64) -> impl Strategy<Value = SyncCase> {
+	let big = (prop::collection::vec(sync_block(), 0..=12), prop::bool::weighted(0.55), prop::collection::vec(sync_block(), 0..=6)).prop_map(move |(pre, compact, post)| Src::Big { base_seed, pre, compact, post });
+	let short = prop::collection::vec(sync_block(), 30..=60).prop_map(|blocks| Src::Short { blocks });
+	let corrupt = (0u8..4, any::<u8>(), 0u8..7, any::<u16>(), any::<bool>()).prop_map(|(tree, nth, kind, pick, retry_after_reset)| Corrupt {
+		tree,
+		nth,
+		kind,
+		pick,
+		retry_after_reset,
+	});
+	(
+		prop_oneof![(10 - small_weight.min(9)) => big, small_weight => short],
+		// bitmap height 0: every segment is a single node whose position equals the local size when it
+		// is next — next_desired_segments used to skip exactly those (`last > local_size`, fixed)
+		(0u8..=2, 2u8..=4, 2u8..=4, 2u8..=4),
+		prop_oneof![Just(3u8), Just(6u8), Just(9u8), Just(15u8)],
+		0u8..=3,
+		prop::collection::vec(any::<u16>(), 4..=24),
+		prop_oneof![Just(0u8), Just(20u8), Just(50u8)],
+		prop_oneof![Just(0u8), Just(15u8), Just(40u8)],
+		prop_oneof![Just(0u8), Just(25u8)],
+		prop::option::weighted(adversarial_weight, corrupt),
+		prop_oneof![3 => Just(0u8), 2 => Just(1u8), 1 => Just(2u8)],
+		any::<u32>(),
+		prop::bool::weighted(0.6),
+	)
+		.prop_map(|(src, heights, max_req, header_chunks, order, dup_pct, extra_pct, drop_pct, corrupt, archive, archive_byte, continue_blocks)| SyncCase {
+			src,
+			heights,
+			max_req,
+			header_chunks,
+			order,
+			dup_pct,
+			extra_pct,
+			drop_pct,
+			corrupt,
+			archive,
+			archive_byte,
+			continue_blocks,
+		})
+}
+
+/// what a node that processed every block up to the archive header reports
+pub struct TwinInfo {
+	pub head: Hash,
+	pub height: u64,
+	pub roots: RootsT,
+	/// (commitment, coinbase?) in MMR order
+	pub unspent: Vec<(Vec<u8>, bool)>,
+	/// unspent leaf indices
+	pub unspent_idx: BTreeSet<u64>,
+}
+
+fn enumerate_unspent(cb: &ChainBox, when: &str) -> Result<Vec<(Vec<u8>, bool)>, Fail> {
+	let mut v = vec![];
+	let mut start = 1u64;
+	loop {
+		let (last, max, outs) = cb.c().unspent_outputs_by_pmmr_index(start, 41, None).map_err(|e| Fail::new("enum-err", format!("{}: {:?}", when, e)))?;
+		for o in &outs {
+			v.push((o.commitment().0.to_vec(), o.features().is_coinbase()));
+		}
+		if outs.is_empty() || last >= max {
+			break;
+		}
+		start = last + 1;
+	}
+	Ok(v)
+}
+
+fn info_of(cb: &ChainBox) -> Result<TwinInfo, Fail> {
+	let head = cb.c().head().map_err(|e| Fail::new("head-err", format!("{:?}", e)))?;
+	let unspent = enumerate_unspent(cb, "twin")?;
+	let mut unspent_idx = BTreeSet::new();
+	for (c, _) in &unspent {
+		let pos0 = cb
+			.c()
+			.get_output_pos(&grin_util::secp::pedersen::Commitment::from_vec(c.clone()))
+			.map_err(|e| Fail::new("harness:twin-pos", format!("{:?}", e)))?;
+		unspent_idx.insert(refmmr::ref_leaves_below(pos0 + 1) - 1);
+	}
+	Ok(TwinInfo {
+		head: head.last_block_h,
+		height: head.height,
+		roots: roots_of(cb)?,
+		unspent,
+		unspent_idx,
+	})
+}
+
+fn fresh_twin(ctx: &Ctx, path: &[grin_core::core::Block], height: u64) -> Result<Arc<TwinInfo>, Fail> {
+	let cb = open_box(&ctx.scratch_dir("twin1")).map_err(|e| Fail::new("init-fresh", e))?;
+	for b in &path[..height as usize] {
+		cb.c().process_block(b.clone(), opts(PowMode::Real)).map_err(|e| Fail::new("harness:twin-block", format!("twin refused block {}: {:?}", b.header.height, e)))?;
+	}
+	Ok(Arc::new(info_of(&cb)?))
+}
+
+// ---------------------------------------------------------------- the big base chain (> 1024 outputs)
+
+pub const BIG_LEN: u64 = 130;
+
+pub struct BigBase {
+	pub dir: std::path::PathBuf,
+	pub world: World,
+	/// what the node reported when its head was at these heights (multiples of 10)
+	pub infos: BTreeMap<u64, Arc<TwinInfo>>,
+}
+
+static BIG: std::sync::OnceLock<std::sync::Mutex<BTreeMap<u64, Arc<BigBase>>>> = std::sync::OnceLock::new();
+
+/// block i of the big base chain: one transaction spending about ten of the youngest outputs (now and
+/// then an older one, so that single unspent outputs stay behind everywhere) and creating 10 (sometimes
+/// 8 or 9) outputs, mostly from the small amount menu so that few distinct bulletproofs are needed
+fn big_raw(seed: u64, i: u64) -> RawBlock {
+	let r = |k: u64| mix(seed, i << 8 | k);
+	let txs = if i >= 4 {
+		let n_out = match r(0) % 20 {
+			0 => 8,
+			1 | 2 => 9,
+			_ => 10,
+		};
+		let n_in = if i == 4 { 1 } else { 8 + r(1) % 4 };
+		let ins: Vec<u16> = (0..n_in)
+			.map(|k| match r(10 + k) % 20 {
+				0..=14 => 0u16,
+				15..=17 => (r(30 + k) % 5000) as u16,
+				_ => 40000 + (r(30 + k) % 25000) as u16,
+			})
+			.collect();
+		let outs: Vec<RawOut> = (0..n_out)
+			.map(|k| RawOut {
+				kind: 0,
+				amt: if r(50 + k) % 4 == 0 { (r(60 + k) % 6) as u8 } else { 5 },
+				key: (r(70 + k) % 5) as u8,
+			})
+			.collect();
+		let kern = if n_out == 10 {
+			0
+		} else {
+			match r(2) % 8 {
+				0 => 1,
+				1 => 2,
+				2 if i >= 9 => 5 + (r(3) % 6) as u8,
+				_ => 0,
+			}
+		};
+		vec![RawTx {
+			ins,
+			outs,
+			fee: (r(4) % 3) as u8,
+			kern,
+			zero_offset: r(5) % 2 == 0,
+			chain_prev: false,
+		}]
+	} else {
+		vec![]
+	};
+	RawBlock {
+		parent: 0,
+		cb_key: 0,
+		txs,
+		dt: 60,
+		diff: 1,
+		neg: Neg::None,
+		neg_pick: 0,
+	}
+}
+
+pub fn big_base(ctx: &Ctx, seed: u64) -> Result<Arc<BigBase>, Fail> {
+	let m = BIG.get_or_init(|| std::sync::Mutex::new(BTreeMap::new()));
+	if let Some(b) = m.lock().unwrap().get(&seed) {
+		return Ok(b.clone());
+	}
+	init_thread();
+	let t0 = std::time::Instant::now();
+	let dir = ctx.scratch_dir("big");
+	let cb = open_box(&dir).map_err(|e| Fail::new("harness:big-base", e))?;
+	{
+		// the genesis header the harness wrote commits to what the chain computes
+		let hd = &cb.genesis.header;
+		let r = roots_of(&cb)?;
+		ensure!(r.0 == hd.output_root && r.2 == hd.range_proof_root && r.3 == hd.kernel_root, "harness:genesis", "rewarded genesis header does not commit to the genesis state");
+	}
+	let mut world = new_world(&cb);
+	let mut head = 0usize;
+	let mut infos = BTreeMap::new();
+	for i in 1..=BIG_LEN {
+		let mut raw = big_raw(seed, i);
+		let built = loop {
+			let built = world.build(cb.c(), &raw, head).map_err(|e| Fail::new("harness:big-base", format!("block {}: {}", i, e)))?;
+			if built.verdict.is_ok() {
+				break built;
+			}
+			// e.g. an NRD kernel too close to its twin: plain kernel instead
+			ensure!(raw.txs.iter().any(|t| t.kern != 0), "harness:big-base", "block {} invalid in the model: {:?}", i, built.verdict.as_ref().err());
+			for t in raw.txs.iter_mut() {
+				t.kern = 0;
+			}
+		};
+		let model = built.verdict.clone().unwrap();
+		cb.c().process_block(built.block.clone(), opts(PowMode::Real)).map_err(|e| Fail::new("harness:big-base", format!("block {} refused: {:?}", i, e)))?;
+		head = world.push(&built, model);
+		if i % 10 == 0 && i >= 90 {
+			infos.insert(i, Arc::new(info_of(&cb)?));
+		}
+	}
+	if std::env::var("GV_DEBUG").is_ok() {
+		let hd = cb.c().head_header().unwrap();
+		eprintln!(
+			"C16 big base seed {}: {} blocks, {} outputs, {} kernels, built in {:.1}s ({} proofs created, {} from cache)",
+			seed,
+			BIG_LEN,
+			refmmr::ref_leaves_below(hd.output_mmr_size),
+			refmmr::ref_leaves_below(hd.kernel_mmr_size),
+			t0.elapsed().as_secs_f64(),
+			LIB.proofs_created.load(std::sync::atomic::Ordering::Relaxed),
+			LIB.proofs_from_cache.load(std::sync::atomic::Ordering::Relaxed)
+		);
+	}
+	let mut cb = cb;
+	cb.close();
+	let d = cb.dir.clone();
+	std::mem::forget(cb);
+	let b = Arc::new(BigBase { dir: d, world, infos });
+	m.lock().unwrap().insert(seed, b.clone());
+	Ok(b)
+}
+
+struct Source {
+	cb: ChainBox,
+	w: World,
+	head: usize,
+	compacted: bool,
+	spends: usize,
+	/// records taken while the chain was being built (big base)
+	infos: BTreeMap<u64, Arc<TwinInfo>>,
+}
+
+impl Source {
+	/// blocks of the best chain, path[k] at height k+1
+	fn path(&self) -> Vec<grin_core::core::Block> {
+		let mut v = vec![];
+		let mut n = self.head;
+		while n != 0 {
+			v.push(self.w.nodes[n].block.clone());
+			n = self.w.nodes[n].parent;
+		}
+		v.reverse();
+		v
+	}
+
+	fn add(&mut self, raw: &RawBlock, what: &str) -> Result<bool, Fail> {
+		let mut raw = raw.clone();
+		raw.parent = 0;
+		raw.neg = Neg::None;
+		let built = self.w.build(self.cb.c(), &raw, self.head).map_err(|e| Fail::new("harness:builder", format!("{}: {}", what, e)))?;
+		let Ok(model) = built.verdict.clone() else {
+			return Ok(false); // e.g. an NRD kernel too early or too close to its twin: not a block of this chain
+		};
+		self.cb
+			.c()
+			.process_block(built.block.clone(), opts(PowMode::Real))
+			.map_err(|e| Fail::new("harness:source-block", format!("{}: source refused a model-valid block h={}: {}", what, built.block.header.height, err_name(&e))))?;
+		self.spends += built.n_spends;
+		self.head = self.w.push(&built, model);
+		Ok(true)
+	}
+
+	fn filler(&mut self, what: &str) -> PResult {
+		let ok = self.add(
+			&RawBlock {
+				parent: 0,
+				cb_key: 0,
+				txs: vec![],
+				dt: 60,
+				diff: 1,
+				neg: Neg::None,
+				neg_pick: 0,
+			},
+			what,
+		)?;
+		ensure!(ok, "harness:builder", "{}: empty block refused by the model", what);
+		Ok(())
+	}
+}
+
+fn build_source(ctx: &Ctx, src: &Src) -> Result<Source, Fail> {
+	match src {
+		Src::Big { base_seed, pre, compact, post } => {
+			let b = big_base(ctx, *base_seed)?;
+			let dir = ctx.scratch_dir("c");
+			copy_dir(&b.dir, &dir).map_err(|e| Fail::new("harness:copy", e.to_string()))?;
+			let cb = open_box(&dir).map_err(|e| Fail::new("init-base-copy", e))?;
+			let w = c02::clone_world(&b.world);
+			let head = w.nodes.len() - 1;
+			let mut s = Source {
+				cb,
+				w,
+				head,
+				compacted: false,
+				spends: 0,
+				infos: b.infos.clone(),
+			};
+			for (i, b) in pre.iter().enumerate() {
+				s.add(b, &format!("pre block {}", i))?;
+			}
+			if *compact {
+				// Chain::compact prunes up to head - cut_through_horizon (20 on this chain type) while the
+				// archive header sits at (head - state_sync_threshold (20)) rounded down to a multiple of 10.
+				// On mainnet the horizon (1 week) is far below the archive header (2 days); here the two
+				// coincide only when the head height is a multiple of 10 — only then is a compacted node
+				// still able to serve the archive state, so compaction happens exactly there.
+				while s.w.nodes[s.head].height() % 10 != 0 {
+					s.filler("filler before compaction")?;
+				}
+				let tail0 = s.cb.c().tail().map(|t| t.height).unwrap_or(0);
+				s.cb.c().compact().map_err(|e| Fail::new("harness:compact", format!("{:?}", e)))?;
+				let tail1 = s.cb.c().tail().map(|t| t.height).unwrap_or(0);
+				s.compacted = tail1 != tail0;
+			}
+			let first_archive = s.w.nodes[s.head].height().saturating_sub(20) / 10 * 10;
+			for (i, b) in post.iter().enumerate() {
+				if *compact && (s.w.nodes[s.head].height() + 1).saturating_sub(20) / 10 * 10 != first_archive {
+					break; // stay within the archive period the compaction was aligned with
+				}
+				s.add(b, &format!("post block {}", i))?;
+			}
+			Ok(s)
+		}
+		Src::Short { blocks } => {
+			let cb = open_box(&ctx.scratch_dir("c")).map_err(|e| Fail::new("init-fresh", e))?;
+			let w = new_world(&cb);
+			let mut s = Source {
+				cb,
+				w,
+				head: 0,
+				compacted: false,
+				spends: 0,
+				infos: BTreeMap::new(),
+			};
+			for (i, b) in blocks.iter().enumerate() {
+				s.add(b, &format!("block {}", i))?;
+			}
+			while s.w.nodes[s.head].height() < 30 {
+				s.filler("padding")?;
+			}
+			Ok(s)
+		}
+	}
+}
+
+/// a receiver that knows every header of the source and no block
+fn headers_only(ctx: &Ctx, path: &[grin_core::core::Block], chunks: u8) -> Result<ChainBox, Fail> {
+	let cb = open_box(&ctx.scratch_dir("recv")).map_err(|e| Fail::new("init-fresh", e))?;
+	let headers: Vec<BlockHeader> = path.iter().map(|b| b.header.clone()).collect();
+	if chunks == 0 {
+		for hd in &headers {
+			cb.c().process_block_header(hd, grin_chain::Options::NONE).map_err(|e| Fail::new("header-refused", format!("header {}: {:?}", hd.height, e)))?;
+		}
+	} else {
+		let mut sync_head = cb.c().header_head().map_err(|e| Fail::new("head-err", format!("{:?}", e)))?;
+		for ch in headers.chunks(8 * chunks as usize) {
+			match cb.c().sync_block_headers(ch, sync_head, grin_chain::Options::SYNC) {
+				Ok(Some(t)) => sync_head = t,
+				Ok(None) => {}
+				Err(e) => fail!("header-refused", "sync_block_headers at {}: {:?}", ch[0].height, e),
+			}
+		}
+	}
+	let hh = cb.c().header_head().map_err(|e| Fail::new("head-err", format!("{:?}", e)))?;
+	ensure!(hh.last_block_h == headers.last().unwrap().hash(), "header-head", "receiver header head {:?} after all headers", hh);
+	Ok(cb)
+}
+
+#[derive(Default, Debug)]
+struct SyncStats {
+	delivered: [u32; 4],
+	distinct: [BTreeSet<u64>; 4],
+	out_of_order: [bool; 4],
+	dups: u32,
+	extras: u32,
+	extras_refused: u32,
+	drops: u32,
+	rounds: u32,
+	/// the corrupted segment: what was done and what became of it
+	corrupt_what: Option<String>,
+	corrupt_outcome: Option<&'static str>,
+}
+
+#[derive(Debug, PartialEq)]
+enum SyncEnd {
+	Complete,
+	/// a step failed: which and how
+	Failed(String),
+	Stalled,
+	/// state sync from segments cannot even start (known finding)
+	Skipped,
+}
+
+fn tix(t: &SegmentType) -> usize {
+	match t {
+		SegmentType::Bitmap => 0,
+		SegmentType::Output => 1,
+		SegmentType::RangeProof => 2,
+		SegmentType::Kernel => 3,
+	}
+}
+
+/// reference check of a served segment against the archive header + choice of a corruption
+struct RefSide<'a> {
+	twin: &'a TwinInfo,
+	archive: &'a BlockHeader,
+	out_tree: RefMmr,
+	ker_tree: RefMmr,
+}
+
+impl<'a> RefSide<'a> {
+	fn new(twin: &'a TwinInfo, archive: &'a BlockHeader) -> RefSide<'a> {
+		RefSide {
+			twin,
+			archive,
+			out_tree: RefMmr::structure(refmmr::ref_leaves_below(archive.output_mmr_size)),
+			ker_tree: RefMmr::structure(refmmr::ref_leaves_below(archive.kernel_mmr_size)),
+		}
+	}
+
+	/// the produced segment, reconstructed by the reference, commits to the archive header's root
+	fn check_served<T: Writeable>(&self, seg: &Segment<T>, tree: usize, when: &str) -> Result<(SegView, Deps), Fail> {
+		let v = SegView::of(seg)?;
+		let (m, bm) = match tree {
+			1 | 2 => (&self.out_tree, Some(&self.twin.unspent_idx)),
+			_ => (&self.ker_tree, None),
+		};
+		let t = RefTree::new(m, bm);
+		let (rr, deps) = t.eval(&v).map_err(|e| Fail::new("served-segment-incomplete-by-reference", format!("{}: {} ; segment {:?}", when, e, brief(&v))))?;
+		let want = match tree {
+			1 => {
+				let merged = refmmr::node_hash(self.archive.output_mmr_size, &rr, &h32(&self.twin.roots.1));
+				(h(&merged), self.archive.output_root)
+			}
+			2 => (h(&rr), self.archive.range_proof_root),
+			_ => (h(&rr), self.archive.kernel_root),
+		};
+		ensure!(want.0 == want.1, "served-segment-not-header-root", "{}: reference reconstruction of the served segment gives {:?}, the archive header commits to {:?}", when, want.0, want.1);
+		Ok((v, deps))
+	}
+
+	fn corrupt<T: Readable + Writeable + std::fmt::Debug>(&self, seg: &Segment<T>, tree: usize, c: &Corrupt, when: &str) -> Result<Option<(Option<Segment<T>>, String)>, Fail> {
+		let (v, d) = self.check_served(seg, tree, when)?;
+		let dl: Vec<u64> = d.leaves.iter().copied().collect();
+		let dh: Vec<u64> = d.hashes.iter().copied().collect();
+		let el: Vec<u64> = v.leaf_pos.iter().copied().filter(|p| !d.leaves.contains(p)).collect();
+		let eh: Vec<u64> = v.hash_pos.iter().copied().filter(|p| !d.hashes.contains(p)).collect();
+		let pk = |l: &Vec<u64>| l.get(((c.pick as usize) * l.len()) >> 16).copied();
+		// the chosen kind, or the next one that this segment has an element for
+		let m = (0..6).find_map(|j| match (c.kind + j) % 6 {
+			0 => pk(&dl).map(Mut::LeafData),
+			1 => pk(&dh).map(Mut::HashVal),
+			2 => (d.proof_used > 0).then(|| Mut::ProofFlip(((c.pick as usize) * d.proof_used) >> 16)),
+			3 => pk(&dl).map(Mut::LeafOmit),
+			4 => pk(&el).map(Mut::ExtraLeafData),
+			_ => pk(&eh).map(Mut::ExtraHashVal),
+		});
+		let Some(m) = m else { return Ok(None) };
+		let Some(mv) = apply_mut(&v, &m, c.pick as u64 * 2654435761) else { return Ok(None) };
+		let what = format!("{}:{}", ["bitmap", "output", "rangeproof", "kernel"][tree], m.kind());
+		Ok(Some((mv.read::<T>().ok(), what)))
+	}
+}
+
+struct Syncer<'a> {
+	case: &'a SyncCase,
+	src: &'a Source,
+	recv: &'a ChainBox,
+	archive: BlockHeader,
+	rs: RefSide<'a>,
+	honest: bool,
+	ctr: u64,
+	seen: [u32; 4],
+	st: SyncStats,
+}
+
+impl<'a> Syncer<'a> {
+	fn rnd(&mut self) -> u64 {
+		let o = &self.case.order;
+		let v = mix(o[(self.ctr as usize) % o.len()] as u64, self.ctr);
+		self.ctr += 1;
+		v
+	}
+
+	fn n_segments(&self, t: &SegmentType, bitmap_size: u64) -> u64 {
+		let (size, hh) = match t {
+			SegmentType::Bitmap => (bitmap_size, self.case.heights.0),
+			SegmentType::Output => (self.archive.output_mmr_size, self.case.heights.1),
+			SegmentType::RangeProof => (self.archive.output_mmr_size, self.case.heights.2),
+			SegmentType::Kernel => (self.archive.kernel_mmr_size, self.case.heights.3),
+		};
+		let n = refmmr::ref_leaves_below(size);
+		(n + (1u64 << hh) - 1) >> hh
+	}
+
+	/// serve one identifier from the source (adapters.rs get_*_segment) and hand it to the
+	/// receiver (adapters.rs receive_*_segment). Ok(Ok) accepted, Ok(Err) refused by the receiver.
+	fn deliver(&mut self, id: &SegmentTypeIdentifier, requested: bool) -> Result<Result<(), String>, Fail> {
+		let when = format!("{:?} segment {:?}", id.segment_type, id.identifier);
+		let segmenter = self.src.cb.c().segmenter().map_err(|e| Fail::new("segmenter-err", format!("{:?}", e)))?;
+		ensure!(segmenter.header().hash() == self.archive.hash(), "segmenter-header", "segmenter serves {:?}, archive header {:?}", segmenter.header().hash(), self.archive.hash());
+		let des = self.recv.c().desegmenter(&self.archive).map_err(|e| Fail::new("desegmenter-err", format!("{:?}", e)))?;
+		let t = tix(&id.segment_type);
+		let sid = id.identifier;
+		// is this the segment to corrupt?
+		let mut corrupt: Option<Corrupt> = None;
+		if !self.honest && requested && self.st.corrupt_what.is_none() {
+			if let Some(c) = &self.case.corrupt {
+				if c.tree as usize == t {
+					if self.seen[t] == if t == 0 { 0 } else { c.nth as u32 % 5 } {
+						corrupt = Some(c.clone());
+					}
+					self.seen[t] += 1;
+				}
+			}
+		}
+		let serve_err = |e: grin_chain::Error| Fail::new("honest-segment-not-produced", format!("{}: {:?}", when, e));
+		macro_rules! finish {
+			($res:expr) => {{
+				let r: Result<(), grin_chain::Error> = $res;
+				Ok(r.map_err(|e| format!("{:?}", e)))
+			}};
+		}
+		// kind 6: a valid segment of another height with the same idx instead of the requested one
+		let mut sid_served = sid;
+		if let Some(c) = &corrupt {
+			if c.kind == 6 && t != 0 {
+				let alt = if sid.height == 2 { 3 } else { sid.height - 1 };
+				let n = refmmr::ref_leaves_below(if t == 3 { self.archive.kernel_mmr_size } else { self.archive.output_mmr_size });
+				if sid.idx << alt < n {
+					sid_served = SegmentIdentifier { height: alt, idx: sid.idx };
+					self.st.corrupt_what = Some(format!("{}:valid-segment-of-other-height", ["bitmap", "output", "rangeproof", "kernel"][t]));
+				}
+			}
+		}
+		match id.segment_type {
+			SegmentType::Bitmap => {
+				let (seg, output_root) = catch(|| segmenter.bitmap_segment(sid_served))?.map_err(serve_err)?;
+				let mut seg = seg;
+				if let Some(c) = &corrupt {
+					let (i, hp, hs, lp, mut ld, pf) = seg.clone().parts();
+					if !ld.is_empty() {
+						let k = ((c.pick as usize) * ld.len()) >> 16;
+						let bit = (c.pick as u64 * 31) % 1024;
+						let cur = ld[k].set_iter(0).any(|b| b as u64 == bit);
+						ld[k].set(bit, !cur);
+						seg = Segment::from_parts(i, hp, hs, lp, ld, pf);
+						self.st.corrupt_what = Some("bitmap:chunk-bit".into());
+					}
+				}
+				let mut g = des.write();
+				let d = g.as_mut().ok_or_else(|| Fail::new("desegmenter-missing", "no desegmenter"))?;
+				finish!(catch(|| d.add_bitmap_segment(seg, output_root))?)
+			}
+			SegmentType::Output => {
+				let (seg, bitmap_root) = catch(|| segmenter.output_segment(sid_served))?.map_err(serve_err)?;
+				let mut seg: Option<Segment<OutputIdentifier>> = Some(seg);
+				if sid_served == sid {
+					self.rs.check_served(seg.as_ref().unwrap(), 1, &when)?;
+					if let Some(c) = &corrupt {
+						if let Some((s, what)) = self.rs.corrupt(seg.as_ref().unwrap(), 1, c, &when)? {
+							self.st.corrupt_what = Some(what);
+							seg = s;
+						}
+					}
+				}
+				let Some(seg) = seg else { return Ok(Err("refused when read from the wire".into())) };
+				let mut g = des.write();
+				let d = g.as_mut().ok_or_else(|| Fail::new("desegmenter-missing", "no desegmenter"))?;
+				finish!(catch(|| d.add_output_segment(seg, Some(bitmap_root)))?)
+			}
+			SegmentType::RangeProof => {
+				let seg = catch(|| segmenter.rangeproof_segment(sid_served))?.map_err(serve_err)?;
+				let mut seg: Option<Segment<RangeProof>> = Some(seg);
+				if sid_served == sid {
+					self.rs.check_served(seg.as_ref().unwrap(), 2, &when)?;
+					if let Some(c) = &corrupt {
+						if let Some((s, what)) = self.rs.corrupt(seg.as_ref().unwrap(), 2, c, &when)? {
+							self.st.corrupt_what = Some(what);
+							seg = s;
+						}
+					}
+				}
+				let Some(seg) = seg else { return Ok(Err("refused when read from the wire".into())) };
+				let mut g = des.write();
+				let d = g.as_mut().ok_or_else(|| Fail::new("desegmenter-missing", "no desegmenter"))?;
+				finish!(catch(|| d.add_rangeproof_segment(seg))?)
+			}
+			SegmentType::Kernel => {
+				let seg = catch(|| segmenter.kernel_segment(sid_served))?.map_err(serve_err)?;
+				let mut seg: Option<Segment<TxKernel>> = Some(seg);
+				if sid_served == sid {
+					self.rs.check_served(seg.as_ref().unwrap(), 3, &when)?;
+					if let Some(c) = &corrupt {
+						if let Some((s, what)) = self.rs.corrupt(seg.as_ref().unwrap(), 3, c, &when)? {
+							self.st.corrupt_what = Some(what);
+							seg = s;
+						}
+					}
+				}
+				let Some(seg) = seg else { return Ok(Err("refused when read from the wire".into())) };
+				let mut g = des.write();
+				let d = g.as_mut().ok_or_else(|| Fail::new("desegmenter-missing", "no desegmenter"))?;
+				finish!(catch(|| d.add_kernel_segment(seg))?)
+			}
+		}
+	}
+
+	/// the loop of StateSync::check_run / continue_pibd (servers/src/grin/sync/state_sync.rs)
+	fn run(&mut self, sync_state: &Arc<SyncState>, stop: &Arc<StopState>) -> Result<SyncEnd, Fail> {
+		let des = self.recv.c().desegmenter(&self.archive).map_err(|e| Fail::new("desegmenter-err", format!("{:?}", e)))?;
+		{
+			let mut g = des.write();
+			let d = g.as_mut().ok_or_else(|| Fail::new("desegmenter-missing", "no desegmenter"))?;
+			let hs = self.case.heights;
+			d.verif_set_segment_heights(hs.0, hs.1, hs.2, hs.3);
+		}
+		let bitmap_size = des.read().as_ref().map(|d| d.expected_bitmap_mmr_size()).unwrap_or(0);
+		let mut complete = false;
+		for round in 0..600u32 {
+			self.st.rounds = round + 1;
+			// continue_pibd: apply what can be applied
+			let applied = {
+				let mut g = des.write();
+				let d = g.as_mut().unwrap();
+				catch(|| d.apply_next_segments())?
+			};
+			if let Err(e) = applied {
+				return Ok(SyncEnd::Failed(format!("apply_next_segments: {:?}", e)));
+			}
+			let ids = {
+				let mut g = des.write();
+				let d = g.as_mut().unwrap();
+				match catch(|| d.check_progress(sync_state.clone()))? {
+					Ok(true) => {
+						complete = true;
+						vec![]
+					}
+					Ok(false) => catch(|| d.next_desired_segments(self.case.max_req as usize))?,
+					Err(e) => return Ok(SyncEnd::Failed(format!("check_progress: {:?}", e))),
+				}
+			};
+			if complete {
+				break;
+			}
+			if std::env::var("GV_DEBUG3").is_ok() {
+				let ts = self.recv.c().txhashset();
+				let ts = ts.read();
+				eprintln!("round {}: archive out {} ker {} sizes out {} rp {} ker {} ; ids {:?}", round, self.archive.output_mmr_size, self.archive.kernel_mmr_size, ts.output_mmr_size(), ts.rangeproof_mmr_size(), ts.kernel_mmr_size(), ids.iter().map(|i| (tix(&i.segment_type), i.identifier.height, i.identifier.idx)).collect::<Vec<_>>());
+			}
+			// arrival schedule of this round
+			let mut sched: Vec<(u64, SegmentTypeIdentifier, bool)> = vec![];
+			for id in &ids {
+				if round < 60 && self.rnd() % 100 < self.case.drop_pct as u64 {
+					self.st.drops += 1; // never arrives: asked for again next round
+					continue;
+				}
+				let k = self.rnd();
+				sched.push((k, id.clone(), true));
+				if self.rnd() % 100 < self.case.dup_pct as u64 {
+					let k = self.rnd();
+					sched.push((k, id.clone(), false));
+					self.st.dups += 1;
+				}
+				if self.rnd() % 100 < self.case.extra_pct as u64 {
+					// a segment nobody asked for now: same tree and height, any existing idx
+					let n = self.n_segments(&id.segment_type, bitmap_size);
+					let x = SegmentTypeIdentifier::new(
+						id.segment_type.clone(),
+						SegmentIdentifier {
+							height: id.identifier.height,
+							idx: self.rnd() % n.max(1),
+						},
+					);
+					if !ids.contains(&x) {
+						let k = self.rnd();
+						sched.push((k, x, false));
+						self.st.extras += 1;
+					}
+				}
+			}
+			sched.sort_by_key(|x| x.0);
+			let mut last_idx: [Option<u64>; 4] = [None; 4];
+			for (_, id, requested) in sched {
+				let t = tix(&id.segment_type);
+				let was_corrupt = self.st.corrupt_what.is_some();
+				let r = self.deliver(&id, requested)?;
+				let is_corrupt = !was_corrupt && self.st.corrupt_what.is_some();
+				self.st.delivered[t] += 1;
+				if requested {
+					self.st.distinct[t].insert(id.identifier.idx);
+					if let Some(l) = last_idx[t] {
+						if id.identifier.idx < l {
+							self.st.out_of_order[t] = true;
+						}
+					}
+					last_idx[t] = Some(id.identifier.idx);
+				}
+				match r {
+					Ok(()) => {
+						if is_corrupt {
+							self.st.corrupt_outcome = Some("accepted-by-add");
+						}
+					}
+					Err(e) => {
+						if is_corrupt {
+							self.st.corrupt_outcome = Some("refused-by-add");
+						} else if requested || ids.contains(&id) {
+							// an honest segment that was asked for (or a duplicate of one)
+							fail!("honest-segment-refused-by-receiver", "{:?} segment {:?} served by the source is refused by add_*_segment: {}", id.segment_type, id.identifier, e);
+						} else {
+							self.st.extras_refused += 1;
+						}
+					}
+				}
+			}
+		}
+		if !complete {
+			return Ok(SyncEnd::Stalled);
+		}
+		// check_run: all segments in → leaf sets, then full validation
+		let mut g = des.write();
+		let d = g.as_mut().unwrap();
+		match catch(|| d.check_progress(sync_state.clone()))? {
+			Ok(true) => {}
+			other => return Ok(SyncEnd::Failed(format!("second check_progress: {:?}", other))),
+		}
+		if let Err(e) = catch(|| d.check_update_leaf_set_state())? {
+			return Ok(SyncEnd::Failed(format!("check_update_leaf_set_state: {:?}", e)));
+		}
+		if let Err(e) = catch(|| d.validate_complete_state(sync_state.clone(), stop.clone()))? {
+			return Ok(SyncEnd::Failed(format!("validate_complete_state: {:?}", e)));
+		}
+		Ok(SyncEnd::Complete)
+	}
+}
+
+/// "never finalises a state whose roots differ from the archive header"
+fn safety(recv: &ChainBox, archive: &BlockHeader, twin: &TwinInfo, when: &str) -> Result<bool, Fail> {
+	let head = recv.c().head().map_err(|e| Fail::new("head-err", format!("{:?}", e)))?;
+	if head.last_block_h != archive.hash() {
+		return Ok(false);
+	}
+	let roots = roots_of(recv)?;
+	ensure!(roots == twin.roots, "finalised-state-with-wrong-roots", "{}: head is the archive header (h={}) but roots {:?} differ from a fully validating node's {:?}", when, archive.height, roots, twin.roots);
+	Ok(true)
+}
+
+/// the receiver reports what a node that processed every block up to the archive header reports
+fn same_state(recv: &ChainBox, src: &Source, archive: &BlockHeader, twin: &TwinInfo, when: &str) -> PResult {
+	let head = recv.c().head().map_err(|e| Fail::new("head-err", format!("{:?}", e)))?;
+	ensure!(head.last_block_h == archive.hash() && head.height == archive.height, "head-not-archive-header", "{}: head {:?} (h={}) after a completed sync, archive header {:?} (h={})", when, head.last_block_h, head.height, archive.hash(), archive.height);
+	ensure!(twin.head == archive.hash(), "harness:twin", "twin head differs from the archive header");
+	let roots = roots_of(recv)?;
+	ensure!(roots == twin.roots, "roots-differ", "{}: roots {:?}, fully validating node {:?}", when, roots, twin.roots);
+	// independent of the twin: roots commit to the header (merged output root by the harness's own hash)
+	let merged = refmmr::node_hash(archive.output_mmr_size, &h32(&roots.0), &h32(&roots.1));
+	ensure!(h(&merged) == archive.output_root && roots.2 == archive.range_proof_root && roots.3 == archive.kernel_root, "roots-not-header", "{}: roots do not match the archive header", when);
+	let got = enumerate_unspent(recv, when)?;
+	ensure!(got == twin.unspent, "unspent-set-differs", "{}: unspent enumeration has {} entries, fully validating node {}; first difference at {:?}", when, got.len(), twin.unspent.len(), got.iter().zip(&twin.unspent).position(|(a, b)| a != b));
+	c02::scan(recv, &src.w, when)?;
+	if let Err(e) = recv.c().validate(false) {
+		fail!("validate-failed-after-sync", "{}: validate(false): {:?}", when, e);
+	}
+	Ok(())
+}
+
+pub fn check_sync(ctx: &Ctx, case: &SyncCase, counting: bool) -> PResult {
+	init_thread();
+	let t0 = std::time::Instant::now();
+	let ev = &ctx.ev;
+	let src = build_source(ctx, &case.src)?;
+	let path = src.path();
+	let archive = src.cb.c().txhashset_archive_header().map_err(|e| Fail::new("archive-header-err", format!("{:?}", e)))?;
+	let head_h = src.w.nodes[src.head].height();
+	// the header the statement talks about, by the documented rule
+	let want_h = head_h.saturating_sub(grin_core::global::state_sync_threshold() as u64);
+	let want_h = want_h - want_h % grin_core::global::txhashset_archive_interval();
+	ensure!(archive.height == want_h && want_h >= 10, "archive-header-height", "archive header at {} for head {}, expected {}", archive.height, head_h, want_h);
+	ensure!(archive.hash() == path[archive.height as usize - 1].hash(), "archive-header-hash", "archive header is not the block of the best chain at its height");
+	let twin = if let Some(i) = src.infos.get(&archive.height) {
+		i.clone()
+	} else {
+		fresh_twin(ctx, &path, archive.height)?
+	};
+	ensure!(twin.head == archive.hash(), "harness:twin", "twin head is not the archive header");
+	let t_src = t0.elapsed().as_secs_f64();
+
+	let recv = headers_only(ctx, &path, case.header_chunks)?;
+	let ah = recv.c().txhashset_archive_header_header_only().map_err(|e| Fail::new("archive-header-err", format!("{:?}", e)))?;
+	ensure!(ah.hash() == archive.hash(), "archive-header-differs", "receiver derives archive header h={} from its headers, source serves h={}", ah.height, archive.height);
+	let sync_state = Arc::new(SyncState::new());
+	let stop = Arc::new(StopState::new());
+	let honest = case.corrupt.is_none();
+	// Chain::desegmenter as state_sync.rs / adapters.rs obtain it
+	let n_out = refmmr::ref_leaves_below(archive.output_mmr_size);
+	let mut pibd = true;
+	match catch(|| recv.c().desegmenter(&archive).map(|_| ())) {
+		Ok(Ok(())) => {}
+		Ok(Err(e)) => fail!("desegmenter-err", "Chain::desegmenter: {:?}", e),
+		Err(f) => {
+			// Desegmenter::new -> calc_bitmap_mmr_sizes: `peaks(..).last().unwrap_or(&(peaks(insertion_to_pmmr_index(leaf_count - 1)).last().unwrap()))`
+			// evaluates the fallback eagerly; with one bitmap chunk (1..=1024 outputs) that is peaks(0) = [] -> unwrap on None
+			if f.sig.contains("desegmenter.rs") && n_out >= 1 && n_out <= 1024 {
+				let sig = "desegmenter-init-panics:archive-state-of-at-most-1024-outputs";
+				if ctx.known_hit(sig) {
+					pibd = false;
+				} else {
+					return Err(Fail::new(sig, format!("Chain::desegmenter(archive header h={}, {} outputs ever = one bitmap chunk) panics: {}", archive.height, n_out, f.msg)));
+				}
+			} else {
+				return Err(f);
+			}
+		}
+	}
+	let mut sy = Syncer {
+		case,
+		src: &src,
+		recv: &recv,
+		archive: archive.clone(),
+		rs: RefSide::new(&twin, &archive),
+		honest,
+		ctr: 0,
+		seen: [0; 4],
+		st: SyncStats::default(),
+	};
+	let end = if pibd { sy.run(&sync_state, &stop)? } else { SyncEnd::Skipped };
+	let st = std::mem::take(&mut sy.st);
+	let corrupted = st.corrupt_what.is_some();
+	let t_sync = t0.elapsed().as_secs_f64() - t_src;
+	let mut recovery: Option<bool> = None;
+	match &end {
+		SyncEnd::Complete => {
+			same_state(&recv, &src, &archive, &twin, "after state sync from segments")?;
+		}
+		SyncEnd::Skipped => {}
+		other => {
+			// refusing is only legitimate when something false was sent and made it past add_*
+			let excused = corrupted && st.corrupt_outcome == Some("accepted-by-add");
+			ensure!(
+				excused,
+				if corrupted { "sync-fails-after-refused-segment" } else { "honest-sync-fails" },
+				"state sync from {} segments ends {:?} (corruption {:?} {:?}); rounds {}, delivered {:?}",
+				if corrupted { "honest (one corrupted one refused on arrival and served again honestly)" } else { "honest" },
+				other,
+				st.corrupt_what,
+				st.corrupt_outcome,
+				st.rounds,
+				st.delivered
+			);
+			safety(&recv, &archive, &twin, "after a failed state sync")?;
+			if case.corrupt.as_ref().map(|c| c.retry_after_reset).unwrap_or(false) {
+				// StateSync::check_run on a reported PIBD failure
+				let des = recv.c().desegmenter(&archive).map_err(|e| Fail::new("desegmenter-err", format!("{:?}", e)))?;
+				if let Some(d) = des.write().as_mut() {
+					d.reset();
+				}
+				let r1 = recv.c().reset_pibd_head();
+				let r2 = recv.c().reset_chain_head_to_genesis();
+				let r3 = recv.c().reset_prune_lists();
+				let mut sy2 = Syncer {
+					case,
+					src: &src,
+					recv: &recv,
+					archive: archive.clone(),
+					rs: RefSide::new(&twin, &archive),
+					honest: true,
+					ctr: 1000,
+					seen: [0; 4],
+					st: SyncStats::default(),
+				};
+				let end2 = match (r1, r2, r3) {
+					(Ok(()), Ok(()), Ok(())) => match sy2.run(&sync_state, &stop) {
+						Ok(e) => e,
+						Err(f) => SyncEnd::Failed(format!("{}: {}", f.sig, f.msg)),
+					},
+					e => SyncEnd::Failed(format!("reset: {:?}", e)),
+				};
+				if end2 == SyncEnd::Complete {
+					same_state(&recv, &src, &archive, &twin, "after reset and a second, honest state sync")?;
+					recovery = Some(true);
+				} else {
+					safety(&recv, &archive, &twin, "after reset and a failed second state sync")?;
+					recovery = Some(false);
+					if std::env::var("GV_DEBUG").is_ok() {
+						eprintln!("C16: recovery after reset failed: {:?}", end2);
+					}
+				}
+			}
+		}
+	}
+	// the synced node goes on like body sync does: the blocks above the archive header
+	let mut continued = 0u32;
+	if case.continue_blocks && (end == SyncEnd::Complete || recovery == Some(true)) {
+		for b in &path[archive.height as usize..] {
+			if let Err(e) = recv.c().process_block(b.clone(), opts(PowMode::Real)) {
+				fail!("synced-node-refuses-next-block", "block h={} of the source's chain refused by the state-synced node: {}", b.header.height, err_name(&e));
+			}
+			continued += 1;
+		}
+		if continued > 0 {
+			let (a, b) = (roots_of(&recv)?, roots_of(&src.cb)?);
+			ensure!(a == b, "roots-differ-after-catching-up", "after applying the {} blocks above the archive header the synced node's roots {:?} differ from the source's {:?}", continued, a, b);
+			c02::scan(&recv, &src.w, "after catching up with the source")?;
+		}
+	}
+	let t_pibd_total = t0.elapsed().as_secs_f64() - t_src;
+
+	// the state archive path
+	let mut archive_outcome = String::new();
+	if case.archive > 0 {
+		let recv2 = headers_only(ctx, &path, case.header_chunks)?;
+		let (_o, _k, file) = src.cb.c().txhashset_read(archive.hash()).map_err(|e| Fail::new("txhashset_read-err", format!("{:?}", e)))?;
+		let mut archive_what = String::new();
+		let file = if case.archive == 2 {
+			// a well-formed archive (valid checksums) whose content differs in one place: unpack with the
+			// node's own helper, change one of the MMR data / hash files, pack again
+			let tmp = ctx.scratch_dir("zipx");
+			let hh = archive.hash().to_string();
+			let files: Vec<std::path::PathBuf> = [
+				"kernel/pmmr_data.bin",
+				"kernel/pmmr_hash.bin",
+				"output/pmmr_data.bin",
+				"output/pmmr_hash.bin",
+				"output/pmmr_prun.bin",
+				"rangeproof/pmmr_data.bin",
+				"rangeproof/pmmr_hash.bin",
+				"rangeproof/pmmr_prun.bin",
+			]
+			.iter()
+			.map(std::path::PathBuf::from)
+			.chain([std::path::PathBuf::from(format!("output/pmmr_leaf.bin.{}", hh)), std::path::PathBuf::from(format!("rangeproof/pmmr_leaf.bin.{}", hh))])
+			.collect();
+			grin_util::zip::extract_files(file, &tmp, files.clone()).map_err(|e| Fail::new("harness:zip", e.to_string()))?;
+			let targets = ["kernel/pmmr_data.bin", "kernel/pmmr_hash.bin", "output/pmmr_data.bin", "output/pmmr_hash.bin", "rangeproof/pmmr_data.bin", "rangeproof/pmmr_hash.bin"];
+			let target = targets[(case.archive_byte % 6) as usize];
+			let fp = tmp.join(target);
+			let mut bytes = std::fs::read(&fp).map_err(|e| Fail::new("harness:zip", format!("{}: {}", target, e)))?;
+			let x = (case.archive_byte >> 3) as usize;
+			match (case.archive_byte >> 1) % 3 {
+				0 if !bytes.is_empty() => {
+					let at = x % bytes.len();
+					bytes[at] ^= 1 << (x % 8);
+					archive_what = format!("{}:byte-flipped", target);
+				}
+				1 if !bytes.is_empty() => {
+					let k = (1 + x % 40).min(bytes.len());
+					bytes.truncate(bytes.len() - k);
+					archive_what = format!("{}:truncated", target);
+				}
+				_ => {
+					let k = 1 + x % 40;
+					bytes.extend((0..k).map(|i| (mix(x as u64, i as u64) & 0xff) as u8));
+					archive_what = format!("{}:junk-appended", target);
+				}
+			}
+			std::fs::write(&fp, &bytes).map_err(|e| Fail::new("harness:zip", e.to_string()))?;
+			let zp = tmp.join("changed.zip");
+			{
+				let zf = std::fs::File::create(&zp).map_err(|e| Fail::new("harness:zip", e.to_string()))?;
+				grin_util::zip::create_zip(&zf, &tmp, files).map_err(|e| Fail::new("harness:zip", e.to_string()))?;
+			}
+			std::fs::File::open(&zp).map_err(|e| Fail::new("harness:zip", e.to_string()))?
+		} else {
+			file
+		};
+		let ss = SyncState::new();
+		let r = catch(|| recv2.c().txhashset_write(archive.hash(), file, &ss))?;
+		match (&r, case.archive) {
+			(Ok(false), _) => {
+				same_state(&recv2, &src, &archive, &twin, "after txhashset_write of the state archive")?;
+				archive_outcome = if case.archive == 1 { "honest:accepted".to_string() } else { format!("changed:{}:accepted-and-state-correct", archive_what) };
+			}
+			(other, 1) => fail!("honest-archive-refused", "txhashset_write of the archive produced by txhashset_read: {:?}", other),
+			(_, _) => {
+				recv2.c().clean_txhashset_sandbox();
+				safety(&recv2, &archive, &twin, "after a refused state archive")?;
+				archive_outcome = format!("changed:{}:refused", archive_what);
+			}
+		}
+	}
+	if std::env::var("GV_DEBUG").is_ok() {
+		eprintln!(
+			"C16 sync: src {:.2}s sync {:.2}s (+continue {:.2}s) total {:.2}s; archive h={} outputs {} kernels {}; end {:?}; {:?}",
+			t_src,
+			t_sync,
+			t_pibd_total - t_sync,
+			t0.elapsed().as_secs_f64(),
+			archive.height,
+			refmmr::ref_leaves_below(archive.output_mmr_size),
+			refmmr::ref_leaves_below(archive.kernel_mmr_size),
+			end,
+			(st.delivered, st.distinct.iter().map(|d| d.len()).collect::<Vec<_>>(), st.out_of_order, st.dups, st.extras, st.extras_refused, st.drops, st.rounds, &st.corrupt_what, st.corrupt_outcome)
+		);
+	}
+	if counting {
+		ev.eval();
+		ev.class(match &case.src {
+			Src::Big { compact: true, .. } => "sync:source:big_chain_compacted",
+			Src::Big { .. } => "sync:source:big_chain",
+			Src::Short { .. } => "sync:source:short_chain",
+		});
+		ev.class(&format!("sync:archive_header_height:{}", archive.height));
+		ev.class(if honest { "sync:honest" } else { "sync:adversarial" });
+		ev.class(&format!("sync:end:{}", match &end { SyncEnd::Complete => "complete", SyncEnd::Failed(_) => "failed", SyncEnd::Stalled => "stalled", SyncEnd::Skipped => "not_started(known finding)" }));
+		if let Some(w) = &st.corrupt_what {
+			ev.class(&format!("sync:corrupted:{}:{}:{}", w, st.corrupt_outcome.unwrap_or("?"), match &end { SyncEnd::Complete => "sync-complete-and-correct", _ => "sync-refused" }));
+		} else if !honest {
+			ev.class("sync:adversarial:no_element_of_that_kind(honest run)");
+		}
+		if let Some(r) = recovery {
+			ev.class(if r { "sync:recovery_after_reset:complete-and-correct" } else { "sync:recovery_after_reset:failed(not asserted)" });
+		}
+		if !archive_outcome.is_empty() {
+			ev.class(&format!("sync:archive:{}", archive_outcome));
+		}
+		if continued > 0 {
+			ev.class("sync:synced_node_caught_up_with_source_blocks");
+		}
+		ev.class_n("sync:segments_delivered", st.delivered.iter().map(|x| *x as u64).sum());
+		ev.class_n("sync:duplicates_delivered", st.dups as u64);
+		ev.class_n("sync:unrequested_delivered", st.extras as u64);
+		ev.class_n("sync:unrequested_refused(not asserted)", st.extras_refused as u64);
+		ev.class_n("sync:requests_dropped", st.drops as u64);
+		let three = (1..4).all(|t| st.distinct[t].len() >= 3);
+		let ooo = (1..4).any(|t| st.out_of_order[t]);
+		if three && ooo {
+			ev.class("sync:ge3_segments_per_tree_out_of_order");
+		}
+		if three && ooo && src.compacted && end == SyncEnd::Complete {
+			ev.class("sync:nontrivial");
+			ev.nontrivial(&("sync", archive.height, case.heights, st.distinct[1].len(), st.distinct[3].len(), st.dups.min(3), st.extras.min(3), honest, case.archive));
+			ev.sample("sync", || serde_json::to_value(case).unwrap());
+		}
+		ev.extra("sync_case_seconds_max", json!(t0.elapsed().as_secs_f64()));
+	}
+	Ok(())
+}
+
+// ================================================================ entry points
+
+fn run_seg(ctx: &Ctx) {
+	let ev = &ctx.ev;
+	// exhaustive small part
+	let (max_n, max_sub) = if ctx.quick() { (40, 7) } else { (160, 10) };
+	let cases = exhaustive_cases(max_n, max_sub);
+	let failed: std::sync::Mutex<Option<(SegCase, Fail)>> = std::sync::Mutex::new(None);
+	{
+		use rayon::prelude::*;
+		cases.par_iter().for_each(|c| {
+			init_thread();
+			if failed.lock().unwrap().is_some() {
+				return;
+			}
+			let r = match catch(|| check_seg(ctx, c, true)) {
+				Ok(r) => r,
+				Err(f) => Err(f),
+			};
+			if let Err(f) = r {
+				let mut g = failed.lock().unwrap();
+				if g.is_none() {
+					*g = Some((c.clone(), f));
+				}
+			}
+		});
+	}
+	ev.class_n("seg:exhaustive_small_trees", cases.len() as u64);
+	if let Some((c, f)) = failed.lock().unwrap().take() {
+		ctx.report("seg", &f.sig, serde_json::to_value(&c).unwrap(), &f.msg);
+	}
+	// generated trees
+	let n = ctx.n(1600, 40000);
+	if let Some(fl) = pbt_par(ctx, "seg", n, 16, seg_strategy, init_thread, |raw, counting| check_seg(ctx, &resolve_seg(raw), counting)) {
+		ctx.report("seg", &fl.fail.sig, serde_json::to_value(resolve_seg(&fl.value)).unwrap(), &fl.fail.msg);
+	}
+	let nb = ctx.n(320, 6000);
+	if let Some(fl) = pbt_par(ctx, "bitmapseg", nb, 16, bm_strategy, init_thread, |c, counting| check_bm(ctx, c, counting)) {
+		ctx.report("bitmapseg", &fl.fail.sig, serde_json::to_value(&fl.value).unwrap(), &fl.fail.msg);
+	}
+}
+
+pub fn run(ctx: &Ctx) -> HResult<()> {
+	init_global();
+	let ev = &ctx.ev;
+	ev.rule("part seg: MMR states of 1..600 leaves — VecBackend (not prunable / prunable with leaves spent but nothing pruned), store PMMRBackend not prunable (optionally reopened), store PMMRBackend prunable in prune/compaction states reached through the store's usage protocol (C08 histories with rewinds, discards, reopen, compaction; forward histories up to 600 leaves spending aligned subtrees, windows, prefixes, all-but-one; exhaustively every spend subset of up to 7 (thorough 10) leaves with/without compaction and every leaf count up to 40 (thorough 160) in memory); for every segment height 0..6 and EVERY index: Segment::from_pmmr, the harness's own wire encoding read back, reference reconstruction (instrumented, own blake2b, explicit forest) must give the reference root, validate and validate_with (both sides) must accept; then every single-element corruption of what the reference reconstruction READ (leaf datum, leaf position -> another valid position, leaf omitted, stand-in hash value / position / omitted, each proof hash flipped, proof shortened / lengthened inside the consumed prefix, identifier -> another existing segment) must be refused by read+validate whenever the reference refuses it; changes to data the reconstruction never reads (data of spent-but-not-compacted leaves, intermediate hashes, trailing proof hashes) are counted and NOT asserted. Non-trivial segment = its reconstruction uses >=1 hash standing in for a fully spent subtree and >=1 leaf; distinct by (backend, height, log2 leaves, #stand-in hashes, #leaves read, full/partial, proof length). part bitmapseg: BitmapAccumulator trees of 1..40 chunks, Segment<BitmapChunk> <-> BitmapSegment round trip, validate_with(output root on the left) against the reference bitmap root, chunk bit / chunk omitted / proof hash / identifier corruptions. part sync: see below");
+	ev.rule("part sync: chains start from a genesis with one reward output and one kernel committed by its header (the shape of the real networks, which the desegmenter's handling of position 0 assumes). Source = copy of a 130-block real-PoW chain built per worker process from its seed (every block spends ~10 young and now and then old outputs and creates 8..10, NRD / height-locked / multi-kernel transactions mixed in: > 1024 outputs = 2 bitmap chunks at the archive header, most outputs spent, unspent ones scattered) + 0..12 generated blocks, optionally fillers to a head height divisible by 10 + Chain::compact() + 0..6 blocks (archive header 110 / 120 / 130); or (10%) a fresh 30..60 block chain (one bitmap chunk; before fix 925185992 Chain::desegmenter panicked there). Receiver = fresh chain given all headers (process_block_header one by one or sync_block_headers in chunks); Desegmenter heights set through verif_set_segment_heights (bitmap 0..2, output/rangeproof/kernel 2..4: 70..300 segments per tree); loop as StateSync::continue_pibd: apply_next_segments, check_progress, next_desired_segments(3|6|9|15), each identifier served by source.segmenter().{bitmap,output,rangeproof,kernel}_segment and handed to add_*_segment in a generated arrival order with duplicates, unrequested segments of the same tree/height and requests that never arrive; every served segment is also reconstructed by the reference (structure + unspent set of the twin) against the archive header's roots; then check_progress, check_update_leaf_set_state, validate_complete_state. Oracle: head, roots, unspent enumeration equal to the record the source itself gave when its head WAS the archive header (a node that processed every block up to it), roots re-merged with the harness's own hash against the header, c02::scan against the replay model (get_unspent of every commitment ever created, enumeration, validate_inputs probes), validate(false), and (60%) the synced node accepts the source's blocks above the archive header and ends with the source's roots. Archive path (50%): txhashset_read -> txhashset_write on a second receiver, same oracle; 1/3 of those with a well-formed archive in which one MMR data/hash file has a flipped byte, a cut tail or appended junk. Adversarial (40%): one served segment corrupted (needed leaf datum / needed stand-in hash / proof hash / needed leaf omitted / unread leaf datum / unread hash / a valid segment of another height with the same idx / one bit of a bitmap chunk): the receiver never has head == archive header with other roots; a corrupted segment refused on arrival must not prevent completion; after a failed sync optionally reset as state_sync.rs does (Desegmenter::reset, reset_pibd_head, reset_chain_head_to_genesis, reset_prune_lists) and sync honestly (completion counted, not asserted; if complete the full oracle applies). Non-trivial sync = completed sync from a compacted source with >=3 segments of each of the three trees and requested segments arriving out of index order");
+	ev.assume("blake2b (blake2-rfc), the harness's reference forest and its reading of the segment wire format (checked by reading every honest segment back) are trusted; hash collisions are treated as impossible");
+	ev.assume("heights 0: two limitations of Segment::from_pmmr on prunable trees are outside the served domain (a node serves heights >= 7, adapters.rs *_SEGMENT_HEIGHT_RANGE) and are counted, not asserted: a height-0 segment next to a spent leaf cannot be produced (the proof wants the removed sibling leaf's hash through get_hash), and a height-0 segment of a spent, not yet compacted leaf with a spent sibling carries the leaf data but not the hash the bitmap-driven reconstruction asks for");
+	ev.assume("identifiers beyond the last segment are not generated (panic in Segment::root, handled under C11)");
+	ev.assume("sync: on AutomatedTesting cut_through_horizon == state_sync_threshold == 20, so Chain::compact prunes up to head-20 while the archive header is (head-20) rounded down to a multiple of 10: a compacted node can only serve the archive state if it compacted at a head height divisible by 10 (on mainnet the horizon is a week, the archive header two days old); compaction is therefore done at height 90 only");
+	ev.assume("sync: the record taken from the source chain when its head was the archive header (or a twin fed the same blocks) and the harness's replay model (c02 scan) are the oracle for the state at the archive header");
+	ev.assume("sync: bitmap segment height 0 is not used: Desegmenter::next_desired_segments asks for a bitmap segment only if its last position is GREATER than the local accumulator size, so a single-node segment at position == size is never requested (production height is 9); the plain dev genesis with an empty body is not used because the desegmenter skips position 0 of every tree as 'the genesis output/kernel'");
+
+	let t0 = std::time::Instant::now();
+	run_seg(ctx);
+	ev.extra("seg_wall_s", json!(t0.elapsed().as_secs_f64()));
+
+	let t1 = std::time::Instant::now();
+	let n = ctx.n(96, 960);
+	if let Some((case, f)) = pbt_proc(ctx, "sync", n, 16) {
+		ctx.report("sync", &f.sig, case, &f.msg);
+	}
+	ev.extra("sync_wall_s", json!(t1.elapsed().as_secs_f64()));
+	for cl in ["sync:honest", "sync:adversarial", "sync:source:big_chain_compacted", "sync:nontrivial", "seg:trees:store_prunable:with_effective_compaction"] {
+		if ev.class_count(cl) == 0 {
+			eprintln!("warning: class {} is empty in this run", cl);
+		}
+	}
+	Ok(())
+}
+
+pub fn part(ctx: &Ctx, part: &str, seed: u64, cases: u32) -> Option<(Value, Fail)> {
+	init_global();
+	match part {
+		"sync" => {
+			// each worker process builds its own big base chain from its seed
+			let strat = sync_strategy(seed, 1, 0.4);
+			run_part(ctx, seed, cases, &strat, |c, counting| check_sync(ctx, c, counting))
+		}
+		_ => None,
+	}
+}
+
+pub fn replay(ctx: &Ctx, part: &str, case: &Value) -> PResult {
+	init_global();
+	let bad = |e: serde_json::Error| Fail::new("harness:replay-parse", e.to_string());
+	match part {
+		"seg" => check_seg(ctx, &serde_json::from_value(case.clone()).map_err(bad)?, false),
+		"bitmapseg" => check_bm(ctx, &serde_json::from_value(case.clone()).map_err(bad)?, false),
+		"sync" => check_sync(ctx, &serde_json::from_value(case.clone()).map_err(bad)?, false),
+		_ => Ok(()),
+	}
 }
